@@ -188,8 +188,15 @@ theorem setBucket_congr {s t : State} {bk bk' : Bucket} (h : Equiv s t) (hb : BE
 
 -- ---------------------------------------------------------------- the write path
 
-theorem mkRow_congr (id : Nat) (k : String) (vid : Option Nat) (c c' n n' : Nat) (x : NewObj) :
-    REqv (mkRow id k vid c n x) (mkRow id k vid c' n' x) := rfl
+/-- Two descriptions of a new object that differ at most in the `created_at` override. -/
+def NEqv (x x' : NewObj) : Prop := x.parts = x'.parts ∧ x.etag = x'.etag ∧ x.o = x'.o ∧ x.seqBase = x'.seqBase
+
+theorem NEqv.refl (x : NewObj) : NEqv x x := ⟨rfl, rfl, rfl, rfl⟩
+
+theorem mkRow_congr (id : Nat) (k : String) (vid : Option Nat) (c c' n n' : Nat) {x x' : NewObj} (hx : NEqv x x') :
+    REqv (mkRow id k vid c n x) (mkRow id k vid c' n' x') := by
+  obtain ⟨h1, h2, h3, h4⟩ := hx
+  simp [REqv, mkRow, eraseRow, h1, h2, h3, h4]
 
 theorem Equiv.with2 {s t : State} (h : Equiv s t) (a b : Nat) :
     Equiv { s with nextVid := a, nextRow := b } { t with nextVid := a, nextRow := b } := by
@@ -217,24 +224,24 @@ theorem unlatestCur_congr (q : Quirks) (n n' : Nat) {bk bk' : Bucket} (h : BEqv 
   | some hr => exact unlatest_congr q n n' h hr
 
 theorem install_congr (q : Quirks) {s t : State} {bk bk' : Bucket} (h : Equiv s t) (hb : BEqv bk bk')
-    (k : String) (n : NewObj) :
-    Equiv (install q s bk k n).1 (install q t bk' k n).1 ∧ (install q s bk k n).2 = (install q t bk' k n).2 := by
+    (k : String) {n n' : NewObj} (hx : NEqv n n') :
+    Equiv (install q s bk k n).1 (install q t bk' k n').1 ∧ (install q s bk k n).2 = (install q t bk' k n').2 := by
   obtain ⟨e1, e2, e3, e4⟩ := h.fields
   have hv := hb.fields.2.1
   have hu := unlatestCur_congr q s.clock t.clock hb k
   unfold install
   simp only [hv, e2, e4]
   split
-  · exact ⟨Equiv.with2 (setBucket_congr h (addRow_congr hu (mkRow_congr ..))) _ _, rfl⟩
+  · exact ⟨Equiv.with2 (setBucket_congr h (addRow_congr hu (mkRow_congr _ _ _ _ _ _ _ hx))) _ _, rfl⟩
   · have hn := nullRow_congr hb k
     generalize nullRow bk k = x at hn ⊢
     generalize nullRow bk' k = y at hn ⊢
     cases hn with
-    | none => exact ⟨Equiv.with1 (setBucket_congr h (addRow_congr hu (mkRow_congr ..))) _, rfl⟩
+    | none => exact ⟨Equiv.with1 (setBucket_congr h (addRow_congr hu (mkRow_congr _ _ _ _ _ _ _ hx))) _, rfl⟩
     | @some a b hr =>
       dsimp only
       rw [(REqv.fields hr).1]
-      exact ⟨setBucket_congr h (replaceRow_congr hu (mkRow_congr ..)), rfl⟩
+      exact ⟨setBucket_congr h (replaceRow_congr hu (mkRow_congr _ _ _ _ _ _ _ hx)), rfl⟩
 
 
 /-- Relatedness of two `putRow` results. -/
@@ -259,18 +266,24 @@ theorem ifMatchOk_congr (im : IfMatch) {x y : Option Row} (h : OptRel REqv x y) 
     obtain ⟨_, _, _, f4, _, _, f7, _⟩ := REqv.fields hr
     cases im <;> simp [ifMatchOk, f4, f7]
 
+theorem anyLatest_congr {x y : Option Row} (h : OptRel REqv x y) :
+    x.any (·.latest) = y.any (·.latest) := by
+  cases h with
+  | none => rfl
+  | some hr => simp [(REqv.fields hr).2.2.2.2.1]
+
 theorem putRow_tail (q : Quirks) {s t : State} (h : Equiv s t) {B B' : Bucket} (hb1 : BEqv B B') (k : String)
-    (n : NewObj) (c1 c2 c3 : Bool) :
+    {n n' : NewObj} (hx : NEqv n n') (c1 c2 c3 : Bool) :
     ExRel
       (if c1 = true then Except.error Err.preconditionFailed
        else if c2 = true then Except.error Err.preconditionFailed
-       else if (c3 && (nullRow B k).isSome) = true then Except.error Err.preconditionFailed
+       else if (c3 && (nullRow B k).any (·.latest)) = true then Except.error Err.preconditionFailed
        else Except.ok (install q s B k n))
       (if c1 = true then Except.error Err.preconditionFailed
        else if c2 = true then Except.error Err.preconditionFailed
-       else if (c3 && (nullRow B' k).isSome) = true then Except.error Err.preconditionFailed
-       else Except.ok (install q t B' k n)) := by
-  have hs := isSome_congr (nullRow_congr hb1 k)
+       else if (c3 && (nullRow B' k).any (·.latest)) = true then Except.error Err.preconditionFailed
+       else Except.ok (install q t B' k n')) := by
+  have hs := anyLatest_congr (nullRow_congr hb1 k)
   simp only [hs]
   split
   · exact .error _
@@ -278,11 +291,11 @@ theorem putRow_tail (q : Quirks) {s t : State} (h : Equiv s t) {B B' : Bucket} (
     · exact .error _
     · split
       · exact .error _
-      · exact ExRel.of_install (install_congr q h hb1 k n)
+      · exact ExRel.of_install (install_congr q h hb1 k hx)
 
 theorem putRow_congr (q : Quirks) {s t : State} {bk bk' : Bucket} (h : Equiv s t) (hb : BEqv bk bk')
-    (k : String) (n : NewObj) (inm : Bool) (im : IfMatch) :
-    ExRel (putRow q s bk k n inm im) (putRow q t bk' k n inm im) := by
+    (k : String) {n n' : NewObj} (hx : NEqv n n') (inm : Bool) (im : IfMatch) :
+    ExRel (putRow q s bk k n inm im) (putRow q t bk' k n' inm im) := by
   unfold putRow
   have hl := latestRow_congr hb k
   have hv := hb.fields.2.1
@@ -292,7 +305,7 @@ theorem putRow_congr (q : Quirks) {s t : State} {bk bk' : Bucket} (h : Equiv s t
   dsimp only
   simp only [him, hv]
   cases hl with
-  | none => exact putRow_tail q h hb k n _ _ _
+  | none => exact putRow_tail q h hb k hx _ _ _
   | @some a b hr =>
     dsimp only
     simp only [(REqv.fields hr).2.2.2.1]
@@ -301,7 +314,1814 @@ theorem putRow_congr (q : Quirks) {s t : State} {bk bk' : Bucket} (h : Equiv s t
       split
       · exact replaceRow_congr hb (touch_congr q _ _ hr)
       · exact hb
-    exact putRow_tail q h hb1 k n _ _ _
+    exact putRow_tail q h hb1 k hx _ _ _
+
+-- ---------------------------------------------------------------- DeleteObject without a version id
+
+theorem isNone_congr {α : Type} {R : α → α → Prop} {x y : Option α} (h : OptRel R x y) : x.isNone = y.isNone := by
+  cases h <;> rfl
+
+/-! `deleteOp` without a version id, restated with named pieces. -/
+
+def delBk1 (bk : Bucket) (k : String) : Bucket :=
+  if bk.ver == .suspended then
+    match nullRow bk k with | some n => removeRow bk n.rowId | none => bk
+  else bk
+
+def delBk2 (q : Quirks) (now : Nat) (bk bk1 : Bucket) (k : String) : Bucket :=
+  match latestRow bk k with
+  | some r => if (bk1.rows.any (·.rowId == r.rowId)) then unlatest q now bk1 r else bk1
+  | none => bk1
+
+def dmRowOf (s : State) (k : String) : Row :=
+  { rowId := s.nextRow, key := k, vid := some s.nextVid, dm := true, latest := true,
+    created := s.clock, updated := s.clock, wrote := s.clock }
+
+def delNone (q : Quirks) (s : State) (bk : Bucket) (k : String) (im : IfMatch) : State × Out :=
+  if (if bk.ver == .suspended then nullRow bk k else latestRow bk k).isNone && !(bk.ver != .off) then
+    if im != .none then (s, .err .preconditionFailed) else (s, .deleted none false)
+  else if !ifMatchOk im (latestRow bk k) then (s, .err .preconditionFailed)
+  else if bk.ver != .off then
+    ({ setBucket s (addRow (delBk2 q s.clock bk (delBk1 bk k) k) (dmRowOf s k)) with
+        nextVid := s.nextVid + 1, nextRow := s.nextRow + 1 },
+     .deleted (some (some s.nextVid)) true)
+  else
+    match latestRow bk k with
+    | some r => (setBucket s (removeRow bk r.rowId), .deleted none false)
+    | none => (s, .deleted none false)
+
+theorem deleteOp_none_eq (q : Quirks) (s : State) (bk : Bucket) (k : String) (im : IfMatch) :
+    deleteOp q s bk k none im = delNone q s bk k im := by
+  rfl
+
+theorem delBk1_congr {bk bk' : Bucket} (hb : BEqv bk bk') (k : String) : BEqv (delBk1 bk k) (delBk1 bk' k) := by
+  unfold delBk1
+  have hn := nullRow_congr hb k
+  simp only [hb.fields.2.1]
+  split
+  · generalize nullRow bk k = x at hn ⊢
+    generalize nullRow bk' k = y at hn ⊢
+    cases hn with
+    | none => exact hb
+    | @some a b hr =>
+      dsimp only
+      rw [(REqv.fields hr).1]
+      exact removeRow_congr hb _
+  · exact hb
+
+theorem delBk2_congr (q : Quirks) (n n' : Nat) {bk bk' bk1 bk1' : Bucket} (hb : BEqv bk bk') (hb1 : BEqv bk1 bk1')
+    (k : String) : BEqv (delBk2 q n bk bk1 k) (delBk2 q n' bk' bk1' k) := by
+  unfold delBk2
+  have hl := latestRow_congr hb k
+  generalize latestRow bk k = x at hl ⊢
+  generalize latestRow bk' k = y at hl ⊢
+  cases hl with
+  | none => exact hb1
+  | @some a b hr =>
+    dsimp only
+    have hany : (bk1.rows.any fun x => x.rowId == a.rowId) = (bk1'.rows.any fun x => x.rowId == b.rowId) := by
+      rw [(REqv.fields hr).1]
+      exact any_congr eraseRow _ (fun c d hcd => by simp [(REqv.fields hcd).1]) _ _ hb1.fields.2.2.1
+    simp only [hany]
+    split
+    · exact unlatest_congr q n n' hb1 hr
+    · exact hb1
+
+/-- Relatedness of two step results: equivalent states, same answer up to timestamps. -/
+def PRel (x y : State × Out) : Prop := Equiv x.1 y.1 ∧ eraseOut x.2 = eraseOut y.2
+
+theorem PRel.ite {c : Bool} {a a' b b' : State × Out} (ha : PRel a a') (hb : PRel b b') :
+    PRel (if c = true then a else b) (if c = true then a' else b') := by
+  cases c <;> simpa
+
+theorem PRel.same {s t : State} (h : Equiv s t) (o : Out) : PRel (s, o) (t, o) := ⟨h, rfl⟩
+
+theorem delNone_congr (q : Quirks) {s t : State} {bk bk' : Bucket} (h : Equiv s t) (hb : BEqv bk bk')
+    (k : String) (im : IfMatch) : PRel (delNone q s bk k im) (delNone q t bk' k im) := by
+  obtain ⟨e1, e2, e3, e4⟩ := h.fields
+  have hl := latestRow_congr hb k
+  have hn := nullRow_congr hb k
+  have hv := hb.fields.2.1
+  have him := ifMatchOk_congr im hl
+  have hprobe : (if bk'.ver == .suspended then nullRow bk k else latestRow bk k).isNone
+      = (if bk'.ver == .suspended then nullRow bk' k else latestRow bk' k).isNone := by
+    split
+    · exact isNone_congr hn
+    · exact isNone_congr hl
+  have hb2 := delBk2_congr q s.clock t.clock hb (delBk1_congr hb k) k
+  have hdm : REqv (dmRowOf s k) (dmRowOf t k) := by simp [REqv, dmRowOf, eraseRow, e2, e4]
+  unfold delNone
+  simp only [hv]
+  simp only [hprobe, him, e2, e4]
+  refine PRel.ite (PRel.ite (PRel.same h _) (PRel.same h _)) (PRel.ite (PRel.same h _) (PRel.ite ?_ ?_))
+  · exact ⟨Equiv.with2 (setBucket_congr h (addRow_congr hb2 hdm)) _ _, rfl⟩
+  · generalize latestRow bk k = x at hl ⊢
+    generalize latestRow bk' k = y at hl ⊢
+    cases hl with
+    | none => exact PRel.same h _
+    | @some a b hr =>
+      dsimp only
+      rw [(REqv.fields hr).1]
+      exact ⟨setBucket_congr h (removeRow_congr hb _), rfl⟩
+
+theorem deleteOp_congr (q : Quirks) {s t : State} {bk bk' : Bucket} (h : Equiv s t) (hb : BEqv bk bk')
+    (k : String) (im : IfMatch) :
+    PRel (deleteOp q s bk k none im) (deleteOp q t bk' k none im) := by
+  rw [deleteOp_none_eq, deleteOp_none_eq]
+  exact delNone_congr q h hb k im
+
+-- ---------------------------------------------------------------- S3.step, call by call
+
+theorem Equiv.tick {s t : State} (h : Equiv s t) : Equiv (tick s) (tick t) :=
+  (equiv_tick s).trans (h.trans (equiv_tick t).symm)
+
+/-- `withBucket` of `S3.step`. -/
+def withB (s : State) (b : String) (f : Bucket → State × Out) : State × Out :=
+  match findBucket s b with
+  | none => (s, .err .noSuchBucket)
+  | some bk => f bk
+
+theorem withB_congr {s t : State} (h : Equiv s t) (b : String) {f g : Bucket → State × Out}
+    (hfg : ∀ bk bk', BEqv bk bk' → PRel (f bk) (g bk')) : PRel (withB s b f) (withB t b g) := by
+  unfold withB
+  have hf := findBucket_congr h b
+  generalize findBucket s b = x at hf ⊢
+  generalize findBucket t b = y at hf ⊢
+  cases hf with
+  | none => exact PRel.same h _
+  | some hb => exact hfg _ _ hb
+
+/-- How `S3.step` turns a `putRow` result into its answer. -/
+def unpack (s : State) (f : Option Nat → Out) : Except Err (State × Option Nat) → State × Out
+  | .error e => (s, .err e)
+  | .ok (s', vid) => (s', f vid)
+
+theorem PRel.of_exrel {x y : Except Err (State × Option Nat)} (hx : ExRel x y) {s t : State} (h : Equiv s t)
+    (f : Option Nat → Out) : PRel (unpack s f x) (unpack t f y) := by
+  cases hx with
+  | error e => exact PRel.same h _
+  | ok v he => exact ⟨he, rfl⟩
+
+-- mkb
+theorem step_mkb_eq (q : Quirks) (s : State) (b : String) :
+    step q s (.mkb b) =
+      if (findBucket (tick s) b).isSome then (tick s, .err .bucketAlreadyExists)
+      else ({ tick s with buckets := (tick s).buckets ++ [{ name := b }] }, .unit) := rfl
+
+theorem step_mkb_congr (q : Quirks) {s t : State} (h : Equiv s t) (b : String) :
+    PRel (step q s (.mkb b)) (step q t (.mkb b)) := by
+  rw [step_mkb_eq, step_mkb_eq]
+  have ht := h.tick
+  rw [isSome_congr (findBucket_congr ht b)]
+  refine PRel.ite (PRel.same ht _) ⟨?_, rfl⟩
+  obtain ⟨e1, e2, e3, e4⟩ := ht.fields
+  exact Equiv.of_fields ⟨by simp [e1], e2, e3, e4⟩
+
+-- rmb
+theorem step_rmb_eq (q : Quirks) (s : State) (b : String) :
+    step q s (.rmb b) = withB (tick s) b fun bk =>
+      if !bk.rows.isEmpty || !bk.uploads.isEmpty then (tick s, .err .bucketNotEmpty)
+      else ({ tick s with buckets := (tick s).buckets.filter (·.name != b) }, .unit) := rfl
+
+theorem step_rmb_congr (q : Quirks) {s t : State} (h : Equiv s t) (b : String) :
+    PRel (step q s (.rmb b)) (step q t (.rmb b)) := by
+  rw [step_rmb_eq, step_rmb_eq]
+  have ht := h.tick
+  refine withB_congr ht b fun bk bk' hb => ?_
+  obtain ⟨_, _, f3, f4⟩ := hb.fields
+  rw [isEmpty_congr _ _ _ f3, isEmpty_congr _ _ _ f4]
+  refine PRel.ite (PRel.same ht _) ⟨?_, rfl⟩
+  obtain ⟨e1, e2, e3, e4⟩ := ht.fields
+  exact Equiv.of_fields ⟨filter_congr eraseBucket _ (fun a c hac => by simp [(BEqv.fields hac).1]) _ _ e1, e2, e3, e4⟩
+
+-- setVer
+theorem step_setVer_eq (q : Quirks) (s : State) (b : String) (v : Versioning) :
+    step q s (.setVer b v) = withB (tick s) b fun bk => (setBucket (tick s) { bk with ver := v }, .unit) := rfl
+
+theorem step_setVer_congr (q : Quirks) {s t : State} (h : Equiv s t) (b : String) (v : Versioning) :
+    PRel (step q s (.setVer b v)) (step q t (.setVer b v)) := by
+  rw [step_setVer_eq, step_setVer_eq]
+  refine withB_congr h.tick b fun bk bk' hb => ⟨setBucket_congr h.tick ?_, rfl⟩
+  obtain ⟨f1, _, f3, f4⟩ := hb.fields
+  exact BEqv.of_fields ⟨f1, rfl, f3, f4⟩
+
+-- put
+theorem step_put_eq (q : Quirks) (s : State) (b k : String) (body : Bytes) (o : WriteOpts) (inm : Bool) (im : IfMatch) :
+    step q s (.put b k body o inm im) = withB (tick s) b fun bk =>
+      unpack (tick s) (fun vid => .wrote vid (singleETag body))
+        (putRow q (tick s) bk k { parts := [body], etag := singleETag body, o := o } inm im) := rfl
+
+theorem step_put_congr (q : Quirks) {s t : State} (h : Equiv s t) (b k : String) (body : Bytes) (o : WriteOpts)
+    (inm : Bool) (im : IfMatch) :
+    PRel (step q s (.put b k body o inm im)) (step q t (.put b k body o inm im)) := by
+  rw [step_put_eq, step_put_eq]
+  exact withB_congr h.tick b fun bk bk' hb =>
+    PRel.of_exrel (putRow_congr q h.tick hb k (NEqv.refl _) inm im) h.tick _
+
+
+-- reads of the current version
+
+inductive ResRel : Except Err Row → Except Err Row → Prop
+  | error (e : Err) : ResRel (.error e) (.error e)
+  | ok {r r' : Row} : REqv r r' → ResRel (.ok r) (.ok r')
+
+theorem resolve_congr {bk bk' : Bucket} (hb : BEqv bk bk') (k : String) :
+    ResRel (resolve bk k none) (resolve bk' k none) := by
+  unfold resolve
+  have hl := latestRow_congr hb k
+  generalize latestRow bk k = x at hl ⊢
+  generalize latestRow bk' k = y at hl ⊢
+  cases hl with
+  | none => exact .error _
+  | @some a b hr =>
+    dsimp only
+    rw [(REqv.fields hr).2.2.2.1]
+    split
+    · exact .error _
+    · exact .ok hr
+
+theorem viewOf_congr {r r' : Row} (h : REqv r r') : eraseOut (.obj (viewOf r)) = eraseOut (.obj (viewOf r')) := by
+  obtain ⟨f1, f2, f3, f4, f5, f6, f7, f8, f9, f10, f11, f12⟩ := REqv.fields h
+  simp [eraseOut, viewOf, Row.content, Row.size, f1, f3, f6, f7, f8, f9, f10, f11]
+
+theorem step_get_eq (q : Quirks) (s : State) (b k : String) (vid : Option (Option Nat)) :
+    step q s (.get b k vid) = withB (tick s) b fun bk =>
+      match resolve bk k vid with
+      | .error e => (tick s, .err e)
+      | .ok r => (tick s, .obj (viewOf r)) := rfl
+
+theorem step_head_eq (q : Quirks) (s : State) (b k : String) (vid : Option (Option Nat)) :
+    step q s (.head b k vid) = withB (tick s) b fun bk =>
+      match resolve bk k vid with
+      | .error e => (tick s, .err e)
+      | .ok r => (tick s, .obj (viewOf r)) := rfl
+
+theorem read_congr {s t : State} (h : Equiv s t) (b k : String) :
+    PRel (withB s b fun bk => match resolve bk k none with
+            | .error e => (s, .err e) | .ok r => (s, .obj (viewOf r)))
+         (withB t b fun bk => match resolve bk k none with
+            | .error e => (t, .err e) | .ok r => (t, .obj (viewOf r))) := by
+  refine withB_congr h b fun bk bk' hb => ?_
+  have hr := resolve_congr hb k
+  generalize resolve bk k none = x at hr ⊢
+  generalize resolve bk' k none = y at hr ⊢
+  cases hr with
+  | error e => exact PRel.same h _
+  | ok hr => exact ⟨h, viewOf_congr hr⟩
+
+theorem step_get_congr (q : Quirks) {s t : State} (h : Equiv s t) (b k : String) :
+    PRel (step q s (.get b k none)) (step q t (.get b k none)) := by
+  rw [step_get_eq, step_get_eq]; exact read_congr h.tick b k
+
+theorem step_head_congr (q : Quirks) {s t : State} (h : Equiv s t) (b k : String) :
+    PRel (step q s (.head b k none)) (step q t (.head b k none)) := by
+  rw [step_head_eq, step_head_eq]; exact read_congr h.tick b k
+
+-- del
+theorem step_del_eq (q : Quirks) (s : State) (b k : String) (vid : Option (Option Nat)) (im : IfMatch) :
+    step q s (.del b k vid im) = withB (tick s) b fun bk => deleteOp q (tick s) bk k vid im := rfl
+
+theorem step_del_congr (q : Quirks) {s t : State} (h : Equiv s t) (b k : String) (im : IfMatch) :
+    PRel (step q s (.del b k none im)) (step q t (.del b k none im)) := by
+  rw [step_del_eq, step_del_eq]
+  exact withB_congr h.tick b fun bk bk' hb => deleteOp_congr q h.tick hb k im
+
+-- tagging
+theorem step_getTags_eq (q : Quirks) (s : State) (b k : String) (vid : Option (Option Nat)) :
+    step q s (.getTags b k vid) = withB (tick s) b fun bk =>
+      match resolve bk k vid with
+      | .error e => (tick s, .err e)
+      | .ok r => (tick s, .tags r.tags) := rfl
+
+theorem step_getTags_congr (q : Quirks) {s t : State} (h : Equiv s t) (b k : String) :
+    PRel (step q s (.getTags b k none)) (step q t (.getTags b k none)) := by
+  rw [step_getTags_eq, step_getTags_eq]
+  refine withB_congr h.tick b fun bk bk' hb => ?_
+  have hr := resolve_congr hb k
+  generalize resolve bk k none = x at hr ⊢
+  generalize resolve bk' k none = y at hr ⊢
+  cases hr with
+  | error e => exact PRel.same h.tick _
+  | ok hr => dsimp only; rw [(REqv.fields hr).2.2.2.2.2.2.2.2.2.1]; exact PRel.same h.tick _
+
+theorem step_putTags_eq (q : Quirks) (s : State) (b k : String) (vid : Option (Option Nat)) (tags : Pairs) :
+    step q s (.putTags b k vid tags) = withB (tick s) b fun bk =>
+      match resolve bk k vid with
+      | .error e => (tick s, .err e)
+      | .ok r => (setBucket (tick s) (replaceRow bk (touch q (tick s).clock { r with tags := tags })), .unit) := rfl
+
+theorem REqv.withTags {r r' : Row} (h : REqv r r') (tags : Pairs) : REqv { r with tags := tags } { r' with tags := tags } := by
+  obtain ⟨f1, f2, f3, f4, f5, f6, f7, f8, f9, f10, f11, f12⟩ := REqv.fields h
+  exact REqv.of_fields ⟨f1, f2, f3, f4, f5, f6, f7, f8, f9, rfl, f11, f12⟩
+
+theorem step_putTags_congr (q : Quirks) {s t : State} (h : Equiv s t) (b k : String) (tags : Pairs) :
+    PRel (step q s (.putTags b k none tags)) (step q t (.putTags b k none tags)) := by
+  rw [step_putTags_eq, step_putTags_eq]
+  refine withB_congr h.tick b fun bk bk' hb => ?_
+  have hr := resolve_congr hb k
+  generalize resolve bk k none = x at hr ⊢
+  generalize resolve bk' k none = y at hr ⊢
+  cases hr with
+  | error e => exact PRel.same h.tick _
+  | ok hr => exact ⟨setBucket_congr h.tick (replaceRow_congr hb (touch_congr q _ _ (hr.withTags tags))), rfl⟩
+
+theorem step_delTags_eq (q : Quirks) (s : State) (b k : String) (vid : Option (Option Nat)) :
+    step q s (.delTags b k vid) = withB (tick s) b fun bk =>
+      match resolve bk k vid with
+      | .error e => (tick s, .err e)
+      | .ok r => (setBucket (tick s) (replaceRow bk (touch q (tick s).clock { r with tags := [] })), .unit) := rfl
+
+theorem step_delTags_congr (q : Quirks) {s t : State} (h : Equiv s t) (b k : String) :
+    PRel (step q s (.delTags b k none)) (step q t (.delTags b k none)) := by
+  rw [step_delTags_eq, step_delTags_eq]
+  refine withB_congr h.tick b fun bk bk' hb => ?_
+  have hr := resolve_congr hb k
+  generalize resolve bk k none = x at hr ⊢
+  generalize resolve bk' k none = y at hr ⊢
+  cases hr with
+  | error e => exact PRel.same h.tick _
+  | ok hr => exact ⟨setBucket_congr h.tick (replaceRow_congr hb (touch_congr q _ _ (hr.withTags []))), rfl⟩
+
+
+-- transition
+theorem step_transition_eq (q : Quirks) (s : State) (b k cls : String) (vid : Option (Option Nat)) :
+    step q s (.transition b k cls vid) = withB (tick s) b fun bk =>
+      match (match vid with | none => latestRow bk k | some v => rowByVid bk k v) with
+      | none => (tick s, .err .noSuchKey)
+      | some r =>
+        if r.dm then (tick s, .err .noSuchKey)
+        else (setBucket (tick s) (replaceRow bk (touch q (tick s).clock { r with cls := some cls, seqBase := 0 })), .unit) := rfl
+
+theorem step_transition_congr (q : Quirks) {s t : State} (h : Equiv s t) (b k cls : String) :
+    PRel (step q s (.transition b k cls none)) (step q t (.transition b k cls none)) := by
+  rw [step_transition_eq, step_transition_eq]
+  refine withB_congr h.tick b fun bk bk' hb => ?_
+  dsimp only
+  have hl := latestRow_congr hb k
+  generalize latestRow bk k = x at hl ⊢
+  generalize latestRow bk' k = y at hl ⊢
+  cases hl with
+  | none => exact PRel.same h.tick _
+  | @some a c hr =>
+    dsimp only
+    obtain ⟨f1, f2, f3, f4, f5, f6, f7, f8, f9, f10, f11, f12⟩ := REqv.fields hr
+    rw [f4]
+    refine PRel.ite (PRel.same h.tick _) ⟨setBucket_congr h.tick (replaceRow_congr hb (touch_congr q _ _ ?_)), rfl⟩
+    exact REqv.of_fields ⟨f1, f2, f3, rfl, f5, f6, f7, f8, f9, f10, rfl, rfl⟩
+
+-- copy
+theorem step_copy_eq (q : Quirks) (s : State) (sb sk : String) (svid : Option (Option Nat)) (db dk : String)
+    (rm rt : Bool) (o : WriteOpts) :
+    step q s (.copy sb sk svid db dk rm rt o) =
+      match findBucket (tick s) sb with
+      | none => (tick s, .err .noSuchBucket)
+      | some sbk =>
+        match resolve sbk sk svid with
+        | .error e => (tick s, .err e)
+        | .ok src =>
+          withB (tick s) db fun dbk =>
+            unpack (tick s) (fun vid => .wrote vid src.etag)
+              (putRow q (tick s) dbk dk
+                { parts := src.parts, etag := src.etag,
+                  o := { ct := if rm then o.ct else src.ct
+                         md := if rm then o.md else sortBy (fun a b => a.1 < b.1)
+                                (src.md.filter (fun p => p.1 != "!wr") ++ o.md.filter fun p => p.1 == "!wr")
+                         tags := if rt then o.tags else src.tags
+                         cls := o.cls } } false .none) := rfl
+
+theorem step_copy_congr (q : Quirks) {s t : State} (h : Equiv s t) (sb sk db dk : String) (rm rt : Bool) (o : WriteOpts) :
+    PRel (step q s (.copy sb sk none db dk rm rt o)) (step q t (.copy sb sk none db dk rm rt o)) := by
+  rw [step_copy_eq, step_copy_eq]
+  have ht := h.tick
+  have hf := findBucket_congr ht sb
+  generalize findBucket (tick s) sb = x at hf ⊢
+  generalize findBucket (tick t) sb = y at hf ⊢
+  cases hf with
+  | none => exact PRel.same ht _
+  | @some sbk sbk' hsb =>
+    dsimp only
+    have hr := resolve_congr hsb sk
+    generalize resolve sbk sk none = x at hr ⊢
+    generalize resolve sbk' sk none = y at hr ⊢
+    cases hr with
+    | error e => exact PRel.same ht _
+    | @ok src src' hr =>
+      dsimp only
+      obtain ⟨f1, f2, f3, f4, f5, f6, f7, f8, f9, f10, f11, f12⟩ := REqv.fields hr
+      rw [f6, f7, f8, f9, f10]
+      exact withB_congr ht db fun bk bk' hb => PRel.of_exrel (putRow_congr q ht hb dk (NEqv.refl _) false .none) ht _
+
+
+-- multipart
+
+theorem uploads_append_congr {bk bk' : Bucket} (hb : BEqv bk bk') {u u' : Upload} (hu : UEqv u u') :
+    BEqv { bk with uploads := bk.uploads ++ [u] } { bk' with uploads := bk'.uploads ++ [u'] } := by
+  obtain ⟨f1, f2, f3, f4⟩ := hb.fields
+  refine BEqv.of_fields ⟨f1, f2, f3, ?_⟩
+  simp only [List.map_append, f4, List.map_cons, List.map_nil]
+  rw [show eraseUpload u = eraseUpload u' from hu]
+
+theorem uploads_filter_congr {bk bk' : Bucket} (hb : BEqv bk bk') (uid : Nat) :
+    BEqv { bk with uploads := bk.uploads.filter (·.uid != uid) } { bk' with uploads := bk'.uploads.filter (·.uid != uid) } := by
+  obtain ⟨f1, f2, f3, f4⟩ := hb.fields
+  refine BEqv.of_fields ⟨f1, f2, f3, ?_⟩
+  exact filter_congr eraseUpload _ (fun a b hab => by simp [(UEqv.fields hab).1]) _ _ f4
+
+theorem uploads_map_congr {bk bk' : Bucket} (hb : BEqv bk bk') (uid : Nat) {u u' : Upload} (hu : UEqv u u') :
+    BEqv { bk with uploads := bk.uploads.map fun x => if x.uid == uid then u else x }
+         { bk' with uploads := bk'.uploads.map fun x => if x.uid == uid then u' else x } := by
+  obtain ⟨f1, f2, f3, f4⟩ := hb.fields
+  refine BEqv.of_fields ⟨f1, f2, f3, ?_⟩
+  refine map_congr_rel eraseUpload _ _ ?_ _ _ f4
+  intro a b hab
+  have e1 := (UEqv.fields hab).1
+  by_cases hc : b.uid = uid
+  · simp [e1, hc]; exact hu
+  · simp [e1, hc]; exact hab
+
+theorem step_mpu_eq (q : Quirks) (s : State) (b k : String) (o : WriteOpts) :
+    step q s (.mpu b k o) = withB (tick s) b fun bk =>
+      ({ setBucket (tick s) { bk with uploads := bk.uploads ++
+            [{ uid := (tick s).nextUid, key := k, created := (tick s).clock, ct := o.ct, md := o.md, tags := o.tags, cls := o.cls }] }
+          with nextUid := (tick s).nextUid + 1 }, .upload (tick s).nextUid) := rfl
+
+theorem step_mpu_congr (q : Quirks) {s t : State} (h : Equiv s t) (b k : String) (o : WriteOpts) :
+    PRel (step q s (.mpu b k o)) (step q t (.mpu b k o)) := by
+  rw [step_mpu_eq, step_mpu_eq]
+  have ht := h.tick
+  have e3 := ht.fields.2.2.1
+  refine withB_congr ht b fun bk bk' hb => ?_
+  rw [e3]
+  exact ⟨Equiv.withUid (setBucket_congr ht (uploads_append_congr hb (by simp [UEqv, eraseUpload]))) _, rfl⟩
+
+theorem step_uploadPart_eq (q : Quirks) (s : State) (b k : String) (uid n : Nat) (body : Bytes) :
+    step q s (.uploadPart b k uid n body) = withB (tick s) b fun bk =>
+      match bk.uploads.find? (fun u => u.uid == uid && u.key == k) with
+      | none => (tick s, .err .noSuchKey)
+      | some u =>
+        (setBucket (tick s) { bk with uploads := bk.uploads.map fun x =>
+            if x.uid == uid then { u with parts := sortedInsert n body u.parts } else x },
+         .part (singleETag body)) := rfl
+
+theorem step_uploadPart_congr (q : Quirks) {s t : State} (h : Equiv s t) (b k : String) (uid n : Nat) (body : Bytes) :
+    PRel (step q s (.uploadPart b k uid n body)) (step q t (.uploadPart b k uid n body)) := by
+  rw [step_uploadPart_eq, step_uploadPart_eq]
+  have ht := h.tick
+  refine withB_congr ht b fun bk bk' hb => ?_
+  have hu := findUpload_congr hb uid k
+  generalize (bk.uploads.find? fun u => u.uid == uid && u.key == k) = x at hu ⊢
+  generalize (bk'.uploads.find? fun u => u.uid == uid && u.key == k) = y at hu ⊢
+  cases hu with
+  | none => exact PRel.same ht _
+  | @some u u' hu =>
+    refine ⟨setBucket_congr ht (uploads_map_congr hb uid ?_), rfl⟩
+    obtain ⟨g1, g2, g3, g4, g5, g6, g7⟩ := UEqv.fields hu
+    cases u; cases u'; simp_all [UEqv, eraseUpload]
+
+theorem step_abort_eq (q : Quirks) (s : State) (b k : String) (uid : Nat) :
+    step q s (.abort b k uid) = withB (tick s) b fun bk =>
+      match bk.uploads.find? (fun u => u.uid == uid && u.key == k) with
+      | none => (tick s, .err .noSuchKey)
+      | some _ => (setBucket (tick s) { bk with uploads := bk.uploads.filter (·.uid != uid) }, .unit) := rfl
+
+theorem step_abort_congr (q : Quirks) {s t : State} (h : Equiv s t) (b k : String) (uid : Nat) :
+    PRel (step q s (.abort b k uid)) (step q t (.abort b k uid)) := by
+  rw [step_abort_eq, step_abort_eq]
+  have ht := h.tick
+  refine withB_congr ht b fun bk bk' hb => ?_
+  have hu := findUpload_congr hb uid k
+  generalize (bk.uploads.find? fun u => u.uid == uid && u.key == k) = x at hu ⊢
+  generalize (bk'.uploads.find? fun u => u.uid == uid && u.key == k) = y at hu ⊢
+  cases hu with
+  | none => exact PRel.same ht _
+  | some hu => exact ⟨setBucket_congr ht (uploads_filter_congr hb uid), rfl⟩
+
+theorem step_complete_eq (q : Quirks) (s : State) (b k : String) (uid : Nat) (declared : Option (List Nat))
+    (inm : Bool) (im : IfMatch) :
+    step q s (.complete b k uid declared inm im) = withB (tick s) b fun bk =>
+      match bk.uploads.find? (fun u => u.uid == uid && u.key == k) with
+      | none => (tick s, .err .noSuchKey)
+      | some u =>
+        if !contiguousFrom 1 u.parts then (tick s, .err .other)
+        else
+          match declaredErr u declared with
+          | some e => (tick s, .err e)
+          | none =>
+            unpack (tick s) (fun vid => .wrote vid (multiETag (u.parts.map (·.2))))
+              (putRow q (tick s) { bk with uploads := bk.uploads.filter (·.uid != uid) } k
+                { parts := u.parts.map (·.2), etag := multiETag (u.parts.map (·.2)),
+                  o := { ct := u.ct, md := u.md, tags := u.tags, cls := u.cls },
+                  created := some u.created, seqBase := 1 } inm im) := rfl
+
+theorem step_complete_congr (q : Quirks) {s t : State} (h : Equiv s t) (b k : String) (uid : Nat)
+    (declared : Option (List Nat)) (inm : Bool) (im : IfMatch) :
+    PRel (step q s (.complete b k uid declared inm im)) (step q t (.complete b k uid declared inm im)) := by
+  rw [step_complete_eq, step_complete_eq]
+  have ht := h.tick
+  refine withB_congr ht b fun bk bk' hb => ?_
+  have hu := findUpload_congr hb uid k
+  generalize (bk.uploads.find? fun u => u.uid == uid && u.key == k) = x at hu ⊢
+  generalize (bk'.uploads.find? fun u => u.uid == uid && u.key == k) = y at hu ⊢
+  cases hu with
+  | none => exact PRel.same ht _
+  | @some u u' hu =>
+    dsimp only
+    obtain ⟨g1, g2, g3, g4, g5, g6, g7⟩ := UEqv.fields hu
+    have hd : declaredErr u declared = declaredErr u' declared := by simp [declaredErr, g7]
+    rw [g7, hd]
+    refine PRel.ite (PRel.same ht _) ?_
+    generalize declaredErr u' declared = de
+    cases de with
+    | some e => exact PRel.same ht _
+    | none =>
+      dsimp only
+      refine PRel.of_exrel (putRow_congr q ht (uploads_filter_congr hb uid) k ?_ inm im) ht _
+      exact ⟨rfl, rfl, by simp [g3, g4, g5, g6], rfl⟩
+
+/-- The write-offset check of `S3.step`'s AppendObject case. -/
+def appendOffOk (bk : Bucket) (k : String) (off : Option Nat) : Bool :=
+  let cur := latestRow bk k
+  let existing : Option Row := match cur with | some r => if r.dm then none else some r | none => none
+  match off with
+  | none => true
+  | some n => match existing with | none => n == 0 | some r => n == r.size
+
+/-- The rest of `S3.step`'s AppendObject case (does not look at the offset). -/
+def appendBody (q : Quirks) (s : State) (bk : Bucket) (k : String) (body : Bytes) : State × Out :=
+  let now := s.clock
+  let cur := latestRow bk k
+  let existing : Option Row := match cur with | some r => if r.dm then none else some r | none => none
+  let oldParts := match existing with | some r => r.parts | none => []
+  let parts := oldParts ++ [body]
+  let etag := multiETag parts
+  let size := parts.flatten.length
+  if bk.ver == .enabled then
+    let o : WriteOpts := match existing with
+      | some r => if q.appendEnabledDropsMeta then { ct := r.ct }
+                  else { ct := r.ct, md := r.md, tags := r.tags, cls := r.cls }
+      | none => {}
+    unpack s (fun _ => .appended etag size) (putRow q s bk k { parts := parts, etag := etag, o := o } false .none)
+  else
+    let target : Option Row := if q.appendLatestInPlace then cur else
+      (match existing with | some r => if r.vid.isNone then some r else none | none => none)
+    match target with
+    | some r =>
+      if r.seqBase == 1 && !r.parts.isEmpty then (s, .err .other) else
+      let r' : Row := { r with dm := false, latest := true, updated := now, wrote := now,
+                               parts := parts, etag := etag,
+                               seqBase := if r.parts.isEmpty then 0 else r.seqBase }
+      (setBucket s (replaceRow bk r'), .appended etag size)
+    | none =>
+      if q.appendLatestInPlace then
+        let row : Row := { rowId := s.nextRow, key := k, vid := none, latest := true,
+                           created := now, updated := now, wrote := now, parts := parts, etag := etag }
+        ({ setBucket s (addRow bk row) with nextRow := s.nextRow + 1 }, .appended etag size)
+      else
+        let o : WriteOpts := match existing with
+          | some r => { ct := r.ct, md := r.md, tags := r.tags, cls := r.cls }
+          | none => {}
+        unpack s (fun _ => .appended etag size) (putRow q s bk k { parts := parts, etag := etag, o := o } false .none)
+
+def appendOn (q : Quirks) (s : State) (bk : Bucket) (k : String) (body : Bytes) (off : Option Nat) : State × Out :=
+  if !appendOffOk bk k off then (s, .err .invalidWriteOffset) else appendBody q s bk k body
+
+theorem step_append_eq (q : Quirks) (s : State) (b k : String) (body : Bytes) (off : Option Nat) :
+    step q s (.append b k body off) = withB (tick s) b fun bk => appendOn q (tick s) bk k body off := rfl
+
+theorem appendOn_congr (q : Quirks) {s t : State} {bk bk' : Bucket} (h : Equiv s t) (hb : BEqv bk bk')
+    (k : String) (body : Bytes) (off : Option Nat) :
+    PRel (appendOn q s bk k body off) (appendOn q t bk' k body off) := by
+  obtain ⟨e1, e2, e3, e4⟩ := h.fields
+  have hl := latestRow_congr hb k
+  have hv := hb.fields.2.1
+  unfold appendOn appendOffOk appendBody
+  generalize latestRow bk k = x at hl ⊢
+  generalize latestRow bk' k = y at hl ⊢
+  simp only [hv, e4]
+  cases hl with
+  | none =>
+    dsimp only
+    refine PRel.ite (PRel.same h _) (PRel.ite ?_ ?_)
+    · exact PRel.of_exrel (putRow_congr q h hb k (NEqv.refl _) false .none) h _
+    · cases hq : q.appendLatestInPlace
+      · simp only [Bool.false_eq_true, if_false]
+        exact PRel.of_exrel (putRow_congr q h hb k (NEqv.refl _) false .none) h _
+      · simp only [if_true]
+        refine ⟨Equiv.with1 (setBucket_congr h (addRow_congr hb ?_)) _, rfl⟩
+        rfl
+  | @some a b hr =>
+    cases a with
+    | mk rowId key vid dm latest created updated wrote parts etag ct md tags cls seqBase =>
+    cases b with
+    | mk rowId' key' vid' dm' latest' created' updated' wrote' parts' etag' ct' md' tags' cls' seqBase' =>
+    simp only [REqv, eraseRow, Row.mk.injEq] at hr
+    obtain ⟨rfl, rfl, rfl, rfl, rfl, -, -, -, rfl, rfl, rfl, rfl, rfl, rfl, rfl⟩ := hr
+    cases dm <;> cases hq : q.appendLatestInPlace <;> cases vid <;>
+      simp only [Bool.false_eq_true, if_false, if_true, Option.isNone_none, Option.isNone_some] <;>
+      repeat' (first
+        | exact PRel.same h _
+        | exact PRel.of_exrel (putRow_congr q h hb k (NEqv.refl _) false .none) h _
+        | (refine ⟨setBucket_congr h (replaceRow_congr hb ?_), rfl⟩; rfl)
+        | (refine ⟨Equiv.with1 (setBucket_congr h (addRow_congr hb ?_)) _, rfl⟩; rfl)
+        | apply PRel.ite)
+
+theorem step_append_congr (q : Quirks) {s t : State} (h : Equiv s t) (b k : String) (body : Bytes) (off : Option Nat) :
+    PRel (step q s (.append b k body off)) (step q t (.append b k body off)) := by
+  rw [step_append_eq, step_append_eq]
+  exact withB_congr h.tick b fun bk bk' hb => appendOn_congr q h.tick hb k body off
+
+-- listings
+
+theorem insertSorted_congr {α : Type} (f : α → α) (lt : α → α → Bool)
+    (hlt : ∀ a b c d, f a = f b → f c = f d → lt a c = lt b d) {x y : α} (hxy : f x = f y) :
+    ∀ l l' : List α, l.map f = l'.map f → (insertSorted lt x l).map f = (insertSorted lt y l').map f
+  | [], [], _ => by simp [insertSorted, hxy]
+  | [], _ :: _, h => by simp at h
+  | _ :: _, [], h => by simp at h
+  | a :: l, b :: l', h => by
+    simp only [List.map_cons, List.cons.injEq] at h
+    simp only [insertSorted, hlt x y a b hxy h.1]
+    cases lt y b
+    · simp [h.1, insertSorted_congr f lt hlt hxy l l' h.2]
+    · simp [hxy, h.1, h.2]
+
+theorem sortBy_congr {α : Type} (f : α → α) (lt : α → α → Bool)
+    (hlt : ∀ a b c d, f a = f b → f c = f d → lt a c = lt b d) :
+    ∀ l l' : List α, l.map f = l'.map f → (sortBy lt l).map f = (sortBy lt l').map f
+  | [], [], _ => rfl
+  | [], _ :: _, h => by simp at h
+  | _ :: _, [], h => by simp at h
+  | a :: l, b :: l', h => by
+    simp only [List.map_cons, List.cons.injEq] at h
+    simp only [sortBy, List.foldr_cons]
+    exact insertSorted_congr f lt hlt h.1 _ _ (sortBy_congr f lt hlt l l' h.2)
+
+theorem map_through {α β : Type} (f : α → α) (g : α → β) (hg : ∀ a, g (f a) = g a) {l l' : List α}
+    (h : l.map f = l'.map f) : l.map g = l'.map g := by
+  have : ∀ m : List α, m.map g = (m.map f).map g := by
+    intro m; simp [List.map_map, Function.comp_def, hg]
+  rw [this l, this l', h]
+
+theorem step_list_eq (q : Quirks) (s : State) (b : String) :
+    step q s (.list b) = withB (tick s) b fun bk =>
+      (tick s, .listing ((sortBy (fun a b => a.key < b.key) (bk.rows.filter fun r => r.latest && !r.dm)).map
+        fun r => (r.key, r.size, r.etag, r.cls))) := rfl
+
+theorem step_list_congr (q : Quirks) {s t : State} (h : Equiv s t) (b : String) :
+    PRel (step q s (.list b)) (step q t (.list b)) := by
+  rw [step_list_eq, step_list_eq]
+  refine withB_congr h.tick b fun bk bk' hb => ⟨h.tick, ?_⟩
+  have hf := filter_congr eraseRow (fun r => r.latest && !r.dm)
+    (fun a c hac => by obtain ⟨_, _, _, f4, f5, _⟩ := REqv.fields hac; simp [f4, f5]) _ _ hb.fields.2.2.1
+  have hs := sortBy_congr eraseRow (fun a b : Row => decide (a.key < b.key))
+    (fun a c d e h1 h2 => by simp [(REqv.fields h1).2.1, (REqv.fields h2).2.1]) _ _ hf
+  have := map_through eraseRow (fun r : Row => (r.key, r.size, r.etag, r.cls)) (fun a => by cases a; rfl) hs
+  simp only [eraseOut, this]
+
+theorem step_listVersions_eq (q : Quirks) (s : State) (b : String) :
+    step q s (.listVersions b) = withB (tick s) b fun bk =>
+      (tick s, .versions ((sortBy (fun (a b : Row) =>
+          a.key < b.key || (a.key == b.key && (match a.vid, b.vid with
+            | some x, some y => x > y
+            | some _, none => true
+            | none, _ => false))) bk.rows).map fun r =>
+        { key := r.key, vid := r.vid, latest := r.latest, dm := r.dm, size := r.size, updated := r.updated,
+          rowId := r.rowId, cls := r.cls })) := rfl
+
+theorem step_listVersions_congr (q : Quirks) {s t : State} (h : Equiv s t) (b : String) :
+    PRel (step q s (.listVersions b)) (step q t (.listVersions b)) := by
+  rw [step_listVersions_eq, step_listVersions_eq]
+  refine withB_congr h.tick b fun bk bk' hb => ⟨h.tick, ?_⟩
+  have hs := sortBy_congr eraseRow (fun (a b : Row) =>
+          decide (a.key < b.key) || (a.key == b.key && (match a.vid, b.vid with
+            | some x, some y => decide (x > y)
+            | some _, none => true
+            | none, _ => false)))
+    (fun a c d e h1 h2 => by
+      obtain ⟨_, k1, v1, _⟩ := REqv.fields h1
+      obtain ⟨_, k2, v2, _⟩ := REqv.fields h2
+      simp [k1, k2, v1, v2]) _ _ hb.fields.2.2.1
+  simp only [eraseOut, List.map_map]
+  exact congrArg Out.versions (map_through eraseRow _ (fun a => by cases a; rfl) hs)
+
+theorem step_listBuckets_eq (q : Quirks) (s : State) :
+    step q s .listBuckets = (tick s, .buckets (sortBy (· < ·) ((tick s).buckets.map (·.name)))) := rfl
+
+theorem step_listBuckets_congr (q : Quirks) {s t : State} (h : Equiv s t) :
+    PRel (step q s .listBuckets) (step q t .listBuckets) := by
+  rw [step_listBuckets_eq, step_listBuckets_eq]
+  refine ⟨h.tick, ?_⟩
+  have := map_through eraseBucket (fun b : Bucket => b.name) (fun a => by cases a; rfl) h.tick.fields.1
+  simp only [this]
+
+-- ---------------------------------------------------------------- all calls
+
+/-- **`S3.step` cannot see timestamps**: on states that are equal up to timestamps, a call that names
+no explicit version id leads to states that are equal up to timestamps and gives the same answer up
+to timestamps. -/
+theorem step_respects_equiv (q : Quirks) {s t : State} (h : Equiv s t) (op : Op)
+    (hv : opNamesVersion op = false) : PRel (step q s op) (step q t op) := by
+  cases op with
+  | mkb b => exact step_mkb_congr q h b
+  | rmb b => exact step_rmb_congr q h b
+  | setVer b v => exact step_setVer_congr q h b v
+  | put b k body o inm im => exact step_put_congr q h b k body o inm im
+  | get b k vid => cases vid with
+    | none => exact step_get_congr q h b k
+    | some v => simp [opNamesVersion] at hv
+  | head b k vid => cases vid with
+    | none => exact step_head_congr q h b k
+    | some v => simp [opNamesVersion] at hv
+  | del b k vid im => cases vid with
+    | none => exact step_del_congr q h b k im
+    | some v => simp [opNamesVersion] at hv
+  | copy sb sk svid db dk rm rt o => cases svid with
+    | none => exact step_copy_congr q h sb sk db dk rm rt o
+    | some v => simp [opNamesVersion] at hv
+  | append b k body off => exact step_append_congr q h b k body off
+  | mpu b k o => exact step_mpu_congr q h b k o
+  | uploadPart b k uid n body => exact step_uploadPart_congr q h b k uid n body
+  | complete b k uid declared inm im => exact step_complete_congr q h b k uid declared inm im
+  | abort b k uid => exact step_abort_congr q h b k uid
+  | getTags b k vid => cases vid with
+    | none => exact step_getTags_congr q h b k
+    | some v => simp [opNamesVersion] at hv
+  | putTags b k vid tags => cases vid with
+    | none => exact step_putTags_congr q h b k tags
+    | some v => simp [opNamesVersion] at hv
+  | delTags b k vid => cases vid with
+    | none => exact step_delTags_congr q h b k
+    | some v => simp [opNamesVersion] at hv
+  | transition b k cls vid => cases vid with
+    | none => exact step_transition_congr q h b k cls
+    | some v => simp [opNamesVersion] at hv
+  | list b => exact step_list_congr q h b
+  | listVersions b => exact step_listVersions_congr q h b
+  | listBuckets => exact step_listBuckets_congr q h
+
+/-- Relatedness of two `xstep` results. -/
+def XRel (x y : State × XOut) : Prop := Equiv x.1 y.1 ∧ eraseXOut x.2 = eraseXOut y.2
+
+theorem XRel.of_prel {x y : State × Out} (h : PRel x y) : XRel (x.1, .base x.2) (y.1, .base y.2) :=
+  ⟨h.1, by simp [eraseXOut, h.2]⟩
+
+theorem readSource_congr {s t : State} (h : Equiv s t) (sb sk : String) :
+    ResRel (readSource s sb sk none) (readSource t sb sk none) := by
+  unfold readSource
+  have hf := findBucket_congr h sb
+  generalize findBucket s sb = x at hf ⊢
+  generalize findBucket t sb = y at hf ⊢
+  cases hf with
+  | none => exact .error _
+  | some hb => exact resolve_congr hb sk
+
+theorem delManyLoop_congr (q : Quirks) (b : String) (keys : List String) {s t : State} (h : Equiv s t) :
+    Equiv (delManyLoop q b s keys).1 (delManyLoop q b t keys).1 ∧
+    (delManyLoop q b s keys).2.map eraseOut = (delManyLoop q b t keys).2.map eraseOut := by
+  induction keys generalizing s t with
+  | nil => exact ⟨h, rfl⟩
+  | cons k ks ih =>
+    simp only [delManyLoop]
+    have h1 := step_respects_equiv q h (.del b k none .none) rfl
+    obtain ⟨i1, i2⟩ := ih h1.1
+    exact ⟨i1, by simp [h1.2, i2]⟩
+
+theorem xstep_respects_equiv (q : Quirks) {s t : State} (h : Equiv s t) (op : XOp)
+    (hv : op.namesVersion = false) : XRel (xstep q s op) (xstep q t op) := by
+  cases op with
+  | base op => exact XRel.of_prel (step_respects_equiv q h op hv)
+  | partCopy sb sk svid db dk uid n range =>
+    cases svid with
+    | some v => simp [XOp.namesVersion] at hv
+    | none =>
+      simp only [xstep]
+      have hr := readSource_congr h sb sk
+      generalize readSource s sb sk none = x at hr ⊢
+      generalize readSource t sb sk none = y at hr ⊢
+      cases hr with
+      | error e => exact ⟨h.tick, rfl⟩
+      | @ok r r' hr =>
+        dsimp only
+        have hc : r.content = r'.content := by simp [Row.content, (REqv.fields hr).2.2.2.2.2.1]
+        rw [hc]
+        cases sliceOf r'.content range with
+        | error e => exact ⟨h.tick, rfl⟩
+        | ok body => exact XRel.of_prel (step_respects_equiv q h (.uploadPart db dk uid n body) rfl)
+  | delMany b keys =>
+    simp only [xstep]
+    have hf := findBucket_congr h b
+    generalize findBucket s b = x at hf ⊢
+    generalize findBucket t b = y at hf ⊢
+    cases hf with
+    | none => exact ⟨h.tick, rfl⟩
+    | some hb =>
+      obtain ⟨i1, i2⟩ := delManyLoop_congr q b keys h
+      exact ⟨i1, by simp [eraseXOut, i2]⟩
+
+-- ---------------------------------------------------------------- row ids
+
+/-! Row ids are unique inside a bucket and below the state's counter. (Needed for one thing only:
+re-saving the current row — `replaceRow bk (touch … r)`, done by conditional writes — touches no
+other row.) -/
+
+def ids (bk : Bucket) : List Nat := bk.rows.map (·.rowId)
+
+def RowsOk (n : Nat) (bk : Bucket) : Prop := (ids bk).Nodup ∧ ∀ i ∈ ids bk, i < n
+
+def WF (s : State) : Prop := ∀ bk ∈ s.buckets, RowsOk s.nextRow bk
+
+theorem RowsOk.mono {n m : Nat} {bk : Bucket} (h : RowsOk n bk) (hnm : n ≤ m) : RowsOk m bk :=
+  ⟨h.1, fun i hi => Nat.lt_of_lt_of_le (h.2 i hi) hnm⟩
+
+theorem ids_replaceRow (bk : Bucket) (r : Row) : ids (replaceRow bk r) = ids bk := by
+  simp only [ids, replaceRow, List.map_map]
+  apply List.map_congr_left
+  intro x _
+  simp only [Function.comp]
+  by_cases h : x.rowId = r.rowId <;> simp [h]
+
+theorem ids_unlatest (q : Quirks) (n : Nat) (bk : Bucket) (r : Row) : ids (unlatest q n bk r) = ids bk :=
+  ids_replaceRow bk _
+
+theorem ids_addRow (bk : Bucket) (r : Row) : ids (addRow bk r) = ids bk ++ [r.rowId] := by
+  simp [ids, addRow]
+
+theorem ids_removeRow (bk : Bucket) (id : Nat) : ids (removeRow bk id) = (ids bk).filter (· != id) := by
+  simp only [ids, removeRow, List.filter_map]
+  rfl
+
+theorem RowsOk.replaceRow {n : Nat} {bk : Bucket} (h : RowsOk n bk) (r : Row) : RowsOk n (replaceRow bk r) := by
+  unfold RowsOk; rw [ids_replaceRow]; exact h
+
+theorem RowsOk.removeRow {n : Nat} {bk : Bucket} (h : RowsOk n bk) (id : Nat) : RowsOk n (removeRow bk id) := by
+  unfold RowsOk; rw [ids_removeRow]
+  exact ⟨h.1.sublist List.filter_sublist, fun i hi => h.2 i (List.mem_filter.mp hi).1⟩
+
+theorem RowsOk.addRow {n : Nat} {bk : Bucket} (h : RowsOk n bk) (r : Row) (hr : r.rowId = n) :
+    RowsOk (n + 1) (addRow bk r) := by
+  unfold RowsOk; rw [ids_addRow]
+  refine ⟨?_, ?_⟩
+  · refine List.nodup_append.mpr ⟨h.1, by simp, ?_⟩
+    intro a ha b hb
+    simp only [List.mem_singleton] at hb
+    have := h.2 a ha
+    omega
+  · intro i hi
+    rcases List.mem_append.mp hi with hi | hi
+    · have := h.2 i hi; omega
+    · simp only [List.mem_singleton] at hi; omega
+
+theorem RowsOk.sameRows {n : Nat} {bk bk' : Bucket} (h : RowsOk n bk) (hr : bk'.rows = bk.rows) : RowsOk n bk' := by
+  unfold RowsOk ids at *; rw [hr]; exact h
+
+theorem mem_of_findBucket {s : State} {b : String} {bk : Bucket} (h : findBucket s b = some bk) : bk ∈ s.buckets :=
+  List.mem_of_find?_eq_some h
+
+theorem WF.setBucket {s : State} (h : WF s) {bk : Bucket} (hb : RowsOk s.nextRow bk) : WF (setBucket s bk) := by
+  intro x hx
+  simp only [S3.setBucket, List.mem_map] at hx
+  obtain ⟨y, hy, rfl⟩ := hx
+  split
+  · exact hb
+  · exact h y hy
+
+theorem WF.bump {s : State} (h : WF s) (n : Nat) (hn : s.nextRow ≤ n) (s' : State)
+    (hb : s'.buckets = s.buckets) (hr : s'.nextRow = n) : WF s' := by
+  intro x hx
+  rw [hb] at hx; rw [hr]
+  exact (h x hx).mono hn
+
+
+theorem WF.tick {s : State} (h : WF s) : WF (tick s) := h
+
+/-- The shapes in which `S3.step` returns a changed state. -/
+theorem WF.put {s : State} (h : WF s) {bk : Bucket} (n : Nat) (hn : s.nextRow ≤ n) (hb : RowsOk n bk)
+    (s' : State) (hbk : s'.buckets = (S3.setBucket s bk).buckets) (hr : s'.nextRow = n) : WF s' := by
+  intro x hx
+  rw [hbk] at hx; rw [hr]
+  simp only [S3.setBucket, List.mem_map] at hx
+  obtain ⟨y, hy, rfl⟩ := hx
+  split
+  · exact hb
+  · exact (h y hy).mono hn
+
+theorem RowsOk.unlatestCur {n : Nat} {bk : Bucket} (h : RowsOk n bk) (q : Quirks) (now : Nat) (k : String) :
+    RowsOk n (unlatestCur q now bk k) := by
+  unfold S3.unlatestCur
+  split
+  · exact h.replaceRow _
+  · exact h
+
+theorem install_wf (q : Quirks) {s : State} (h : WF s) {bk : Bucket} (hb : RowsOk s.nextRow bk) (k : String)
+    (n : NewObj) : WF (install q s bk k n).1 := by
+  unfold install
+  have hu := hb.unlatestCur q s.clock k
+  dsimp only
+  split
+  · exact h.put (s.nextRow + 1) (Nat.le_succ _) (hu.addRow _ rfl) _ rfl rfl
+  · split
+    · exact h.put s.nextRow (Nat.le_refl _) (hu.replaceRow _) _ rfl rfl
+    · exact h.put (s.nextRow + 1) (Nat.le_succ _) (hu.addRow _ rfl) _ rfl rfl
+
+/-- A successful `putRow` installed the object into the bucket itself or into the bucket with its
+current row re-saved (conditional writes), after the conditions held. -/
+theorem putRow_ok_shape (q : Quirks) (s : State) (bk : Bucket) (k : String) (n : NewObj) (inm : Bool) (im : IfMatch)
+    (r : State × Option Nat) (hr : putRow q s bk k n inm im = .ok r) :
+    ∃ bk1, r = install q s bk1 k n ∧
+      (bk1 = bk ∨ ∃ a, latestRow bk k = some a ∧ bk1 = replaceRow bk (touch q s.clock a)) := by
+  unfold putRow at hr
+  cases hl : latestRow bk k with
+  | none =>
+    simp only [hl] at hr
+    split at hr
+    · cases hr
+    · split at hr
+      · cases hr
+      · split at hr
+        · cases hr
+        · injection hr with hr
+          exact ⟨bk, hr.symm, Or.inl rfl⟩
+  | some a =>
+    simp only [hl] at hr
+    split at hr
+    · cases hr
+    · split at hr
+      · cases hr
+      · by_cases hc : (inm || im != IfMatch.none) = true
+        · simp only [hc, if_true] at hr
+          split at hr
+          · cases hr
+          · injection hr with hr
+            exact ⟨_, hr.symm, Or.inr ⟨a, rfl, rfl⟩⟩
+        · have hc' : (inm || im != IfMatch.none) = false := by simpa using hc
+          simp only [hc', Bool.false_eq_true, if_false] at hr
+          split at hr
+          · cases hr
+          · injection hr with hr
+            exact ⟨_, hr.symm, Or.inl rfl⟩
+
+theorem putRow_wf (q : Quirks) {s : State} (h : WF s) {bk : Bucket} (hb : RowsOk s.nextRow bk) (k : String)
+    (n : NewObj) (inm : Bool) (im : IfMatch) (r : State × Option Nat)
+    (hr : putRow q s bk k n inm im = .ok r) : WF r.1 := by
+  obtain ⟨bk1, rfl, hbk1⟩ := putRow_ok_shape q s bk k n inm im r hr
+  apply install_wf q h
+  rcases hbk1 with rfl | ⟨a, _, rfl⟩
+  · exact hb
+  · exact hb.replaceRow _
+
+theorem unpack_wf {s : State} (h : WF s) (f : Option Nat → Out) (x : Except Err (State × Option Nat))
+    (hx : ∀ r, x = .ok r → WF r.1) : WF (unpack s f x).1 := by
+  cases x with
+  | error e => exact h
+  | ok r => exact hx r rfl
+
+theorem withB_wf {s : State} (h : WF s) (b : String) (f : Bucket → State × Out)
+    (hf : ∀ bk ∈ s.buckets, WF (f bk).1) : WF (withB s b f).1 := by
+  unfold withB
+  cases hfb : findBucket s b with
+  | none => exact h
+  | some bk => exact hf bk (mem_of_findBucket hfb)
+
+
+theorem RowsOk.delBk1 {n : Nat} {bk : Bucket} (h : RowsOk n bk) (k : String) : RowsOk n (delBk1 bk k) := by
+  unfold Replication.delBk1
+  split
+  · split
+    · exact h.removeRow _
+    · exact h
+  · exact h
+
+theorem RowsOk.delBk2 {n : Nat} {bk bk1 : Bucket} (h1 : RowsOk n bk1) (q : Quirks) (now : Nat) (k : String) :
+    RowsOk n (delBk2 q now bk bk1 k) := by
+  unfold Replication.delBk2
+  split
+  · split
+    · exact h1.replaceRow _
+    · exact h1
+  · exact h1
+
+/-- "The state component is well-formed." -/
+def WFP (x : State × Out) : Prop := WF x.1
+
+theorem WFP.ite {c : Bool} {a b : State × Out} (ha : WFP a) (hb : WFP b) : WFP (if c = true then a else b) := by
+  cases c <;> simpa
+
+theorem delNone_wf (q : Quirks) {s : State} (h : WF s) {bk : Bucket} (hb : RowsOk s.nextRow bk) (k : String)
+    (im : IfMatch) : WFP (delNone q s bk k im) := by
+  unfold delNone
+  refine WFP.ite (WFP.ite h h) (WFP.ite h (WFP.ite ?_ ?_))
+  · exact h.put (s.nextRow + 1) (Nat.le_succ _) (((hb.delBk1 k).delBk2 q s.clock k).addRow _ rfl) _ rfl rfl
+  · cases latestRow bk k with
+    | none => exact h
+    | some r => exact h.put s.nextRow (Nat.le_refl _) (hb.removeRow _) _ rfl rfl
+
+theorem appendOn_wf (q : Quirks) {s : State} (h : WF s) {bk : Bucket} (hb : RowsOk s.nextRow bk) (k : String)
+    (body : Bytes) (off : Option Nat) : WFP (appendOn q s bk k body off) := by
+  unfold appendOn appendOffOk appendBody
+  cases latestRow bk k with
+  | none =>
+    dsimp only
+    cases hq : q.appendLatestInPlace <;>
+      simp only [Bool.false_eq_true, if_false, if_true] <;>
+      repeat' (first
+        | exact h
+        | exact unpack_wf h _ _ fun r hr => putRow_wf q h hb k _ _ _ r hr
+        | exact h.put s.nextRow (Nat.le_refl _) (hb.replaceRow _) _ rfl rfl
+        | exact h.put (s.nextRow + 1) (Nat.le_succ _) (hb.addRow _ rfl) _ rfl rfl
+        | apply WFP.ite)
+  | some a =>
+    cases a with
+    | mk rowId key vid dm latest created updated wrote parts etag ct md tags cls seqBase =>
+    cases dm <;> cases hq : q.appendLatestInPlace <;> cases vid <;>
+      simp only [Bool.false_eq_true, if_false, if_true, Option.isNone_none, Option.isNone_some] <;>
+      repeat' (first
+        | exact h
+        | exact unpack_wf h _ _ fun r hr => putRow_wf q h hb k _ _ _ r hr
+        | exact h.put s.nextRow (Nat.le_refl _) (hb.replaceRow _) _ rfl rfl
+        | exact h.put (s.nextRow + 1) (Nat.le_succ _) (hb.addRow _ rfl) _ rfl rfl
+        | apply WFP.ite)
+
+theorem WF.putSameRows {s : State} (h : WF s) {bk bk' : Bucket} (hbk : bk ∈ s.buckets)
+    (s' : State) (hb : s'.buckets = (S3.setBucket s bk').buckets) (hn : s'.nextRow = s.nextRow)
+    (hr : bk'.rows = bk.rows) : WF s' :=
+  h.put s.nextRow (Nat.le_refl _) ((h bk hbk).sameRows hr) s' hb hn
+
+theorem resolve_any_wf {s : State} (h : WF s) (f : Row → State × Out)
+    (hf : ∀ r, WF (f r).1) (x : Except Err Row) :
+    WF (match x with | .error e => (s, Out.err e) | .ok r => f r).1 := by
+  cases x with
+  | error e => exact h
+  | ok r => exact hf r
+
+/-- Every call that names no version id keeps row ids unique and below the counter. -/
+theorem step_wf (q : Quirks) {s : State} (h : WF s) (op : Op) (hv : opNamesVersion op = false) :
+    WF (step q s op).1 := by
+  have ht : WF (tick s) := h
+  cases op with
+  | mkb b =>
+    rw [step_mkb_eq]
+    split
+    · exact ht
+    · intro x hx
+      rcases List.mem_append.mp hx with hx | hx
+      · exact ht x hx
+      · simp only [List.mem_singleton] at hx
+        subst hx
+        exact ⟨by simp [ids], by simp [ids]⟩
+  | rmb b =>
+    rw [step_rmb_eq]
+    refine withB_wf ht b _ fun bk hbk => ?_
+    split
+    · exact ht
+    · intro x hx
+      exact ht x (List.mem_filter.mp hx).1
+  | setVer b v =>
+    rw [step_setVer_eq]
+    exact withB_wf ht b _ fun bk hbk => ht.putSameRows hbk _ rfl rfl rfl
+  | put b k body o inm im =>
+    rw [step_put_eq]
+    exact withB_wf ht b _ fun bk hbk => unpack_wf ht _ _ fun r hr => putRow_wf q ht (ht bk hbk) k _ _ _ r hr
+  | get b k vid =>
+    rw [step_get_eq]
+    exact withB_wf ht b _ fun bk hbk => by split <;> exact ht
+  | head b k vid =>
+    rw [step_head_eq]
+    exact withB_wf ht b _ fun bk hbk => by split <;> exact ht
+  | del b k vid im =>
+    cases vid with
+    | some v => simp [opNamesVersion] at hv
+    | none =>
+      rw [step_del_eq]
+      exact withB_wf ht b _ fun bk hbk => by rw [deleteOp_none_eq]; exact delNone_wf q ht (ht bk hbk) k im
+  | copy sb sk svid db dk rm rt o =>
+    rw [step_copy_eq]
+    split
+    · exact ht
+    · split
+      · exact ht
+      · exact withB_wf ht db _ fun bk hbk => unpack_wf ht _ _ fun r hr => putRow_wf q ht (ht bk hbk) dk _ _ _ r hr
+  | append b k body off =>
+    rw [step_append_eq]
+    exact withB_wf ht b _ fun bk hbk => appendOn_wf q ht (ht bk hbk) k body off
+  | mpu b k o =>
+    rw [step_mpu_eq]
+    exact withB_wf ht b _ fun bk hbk => ht.putSameRows hbk _ rfl rfl rfl
+  | uploadPart b k uid n body =>
+    rw [step_uploadPart_eq]
+    refine withB_wf ht b _ fun bk hbk => ?_
+    split
+    · exact ht
+    · exact ht.putSameRows hbk _ rfl rfl rfl
+  | complete b k uid declared inm im =>
+    rw [step_complete_eq]
+    refine withB_wf ht b _ fun bk hbk => ?_
+    split
+    · exact ht
+    · split
+      · exact ht
+      · split
+        · exact ht
+        · exact unpack_wf ht _ _ fun r hr => putRow_wf q ht (bk := { bk with uploads := bk.uploads.filter (·.uid != uid) })
+            ((ht bk hbk).sameRows rfl) k _ _ _ r hr
+  | abort b k uid =>
+    rw [step_abort_eq]
+    refine withB_wf ht b _ fun bk hbk => ?_
+    split
+    · exact ht
+    · exact ht.putSameRows hbk _ rfl rfl rfl
+  | getTags b k vid =>
+    rw [step_getTags_eq]
+    exact withB_wf ht b _ fun bk hbk => by split <;> exact ht
+  | putTags b k vid tags =>
+    rw [step_putTags_eq]
+    refine withB_wf ht b _ fun bk hbk => ?_
+    split
+    · exact ht
+    · exact ht.put _ (Nat.le_refl _) ((ht bk hbk).replaceRow _) _ rfl rfl
+  | delTags b k vid =>
+    rw [step_delTags_eq]
+    refine withB_wf ht b _ fun bk hbk => ?_
+    split
+    · exact ht
+    · exact ht.put _ (Nat.le_refl _) ((ht bk hbk).replaceRow _) _ rfl rfl
+  | transition b k cls vid =>
+    rw [step_transition_eq]
+    refine withB_wf ht b _ fun bk hbk => ?_
+    split
+    · exact ht
+    · split
+      · exact ht
+      · exact ht.put _ (Nat.le_refl _) ((ht bk hbk).replaceRow _) _ rfl rfl
+  | list b =>
+    rw [step_list_eq]
+    exact withB_wf ht b _ fun bk hbk => ht
+  | listVersions b =>
+    rw [step_listVersions_eq]
+    exact withB_wf ht b _ fun bk hbk => ht
+  | listBuckets => exact ht
+
+-- ---------------------------------------------------------------- what replication forwards
+
+theorem delManyLoop_wf (q : Quirks) (b : String) (keys : List String) {s : State} (h : WF s) :
+    WF (delManyLoop q b s keys).1 := by
+  induction keys generalizing s with
+  | nil => exact h
+  | cons k ks ih => exact ih (step_wf q h (.del b k none .none) rfl)
+
+theorem nodup_map_inj {α β : Type} (f : α → β) : ∀ (l : List α), (l.map f).Nodup → ∀ x ∈ l, ∀ y ∈ l, f x = f y → x = y
+  | [], _, _, hx, _, _, _ => by simp at hx
+  | a :: l, hn, x, hx, y, hy, hxy => by
+    simp only [List.map_cons, List.nodup_cons, List.mem_map, not_exists, not_and] at hn
+    rcases List.mem_cons.mp hx with rfl | hx' <;> rcases List.mem_cons.mp hy with rfl | hy'
+    · rfl
+    · exact absurd hxy.symm (hn.1 y hy')
+    · exact absurd hxy (hn.1 x hx')
+    · exact nodup_map_inj f l hn.2 x hx' y hy' hxy
+
+theorem xstep_wf (q : Quirks) {s : State} (h : WF s) (op : XOp) (hv : op.namesVersion = false) :
+    WF (xstep q s op).1 := by
+  cases op with
+  | base op => exact step_wf q h op hv
+  | partCopy sb sk svid db dk uid n range =>
+    simp only [xstep]
+    split
+    · exact h
+    · split
+      · exact h
+      · exact step_wf q h _ rfl
+  | delMany b keys =>
+    simp only [xstep]
+    split
+    · exact h
+    · exact delManyLoop_wf q b keys h
+
+/-- With unique row ids, re-saving the current row of a key touches no other row. -/
+theorem replaceRow_touch_beqv (q : Quirks) (n : Nat) {bk : Bucket} (hn : (ids bk).Nodup) {k : String} {a : Row}
+    (ha : latestRow bk k = some a) : BEqv (replaceRow bk (touch q n a)) bk := by
+  have hmem : a ∈ bk.rows := List.mem_of_find?_eq_some ha
+  refine BEqv.of_fields ⟨rfl, rfl, ?_, rfl⟩
+  simp only [replaceRow, List.map_map]
+  apply List.map_congr_left
+  intro x hx
+  simp only [Function.comp]
+  by_cases hc : x.rowId = (touch q n a).rowId
+  · have hxa : x = a := by
+      have hid : x.rowId = a.rowId := by simpa [touch] using hc
+      exact nodup_map_inj _ _ hn x hx a hmem hid
+    subst hxa
+    split <;> simp [eraseRow_touch]
+  · simp [hc]
+
+
+theorem putRow_unconditional (q : Quirks) (s : State) (bk : Bucket) (k : String) (n : NewObj) :
+    putRow q s bk k n false .none = .ok (install q s bk k n) := by
+  unfold putRow
+  cases latestRow bk k <;> simp [ifMatchOk]
+
+/-- Dropping the conditions of a conditional write that succeeded changes nothing but timestamps. -/
+theorem putRow_drop (q : Quirks) {s : State} {bk : Bucket} (hn : (ids bk).Nodup) (k : String) (n : NewObj)
+    (inm : Bool) (im : IfMatch) (r : State × Option Nat) (hr : putRow q s bk k n inm im = .ok r) :
+    ExRel (putRow q s bk k n false .none) (putRow q s bk k n inm im) := by
+  rw [hr, putRow_unconditional]
+  obtain ⟨bk1, rfl, hbk1⟩ := putRow_ok_shape q s bk k n inm im r hr
+  rcases hbk1 with rfl | ⟨a, ha, rfl⟩
+  · exact ExRel.of_install ⟨Equiv.refl _, rfl⟩
+  · exact ExRel.of_install
+      (install_congr q (Equiv.refl s) (show BEqv bk _ from (replaceRow_touch_beqv q s.clock hn ha).symm) k (NEqv.refl n))
+
+def isErrOut : Out → Bool
+  | .err _ => true
+  | _ => false
+
+theorem PRel.refl (x : State × Out) : PRel x x := ⟨rfl, rfl⟩
+
+theorem unpack_drop {s : State} {f : Option Nat → Out} (_hf : ∀ v, isErrOut (f v) = false)
+    {x y : Except Err (State × Option Nat)} (hxy : ∀ r, y = .ok r → ExRel x y)
+    (hok : isErrOut (unpack s f y).2 = false) : PRel (unpack s f x) (unpack s f y) := by
+  cases y with
+  | error e => simp [unpack, isErrOut] at hok
+  | ok r => exact PRel.of_exrel (hxy r rfl) (Equiv.refl s) f
+
+theorem withB_drop {s : State} (b : String) {f g : Bucket → State × Out}
+    (hfg : ∀ bk ∈ s.buckets, isErrOut (g bk).2 = false → PRel (f bk) (g bk))
+    (hok : isErrOut (withB s b g).2 = false) : PRel (withB s b f) (withB s b g) := by
+  unfold withB at hok ⊢
+  cases hfb : findBucket s b with
+  | none => exact PRel.refl _
+  | some bk => rw [hfb] at hok; exact hfg bk (mem_of_findBucket hfb) hok
+
+theorem declaredErr_partsOnly (u : Upload) (declared : Option (List Nat)) :
+    declaredErr u (partsOnly declared) = declaredErr u declared := by
+  cases declared with
+  | none => rfl
+  | some ds => cases ds <;> rfl
+
+theorem appendOn_drop_offset (q : Quirks) (s : State) (bk : Bucket) (k : String) (body : Bytes) (off : Option Nat)
+    (hok : isErrOut (appendOn q s bk k body off).2 = false) :
+    appendOn q s bk k body none = appendOn q s bk k body off := by
+  have hnone : appendOffOk bk k none = true := rfl
+  unfold appendOn at hok ⊢
+  rw [hnone]
+  cases h : appendOffOk bk k off
+  · rw [h] at hok; simp [isErrOut] at hok
+  · rfl
+
+/-- What replication forwards has, on the state where the original call succeeded, the effect of
+the original call (up to timestamps): dropped conditions had held, a dropped offset had matched. -/
+theorem fwdBase_same_effect (q : Quirks) {s : State} (hwf : WF s) (op : Op) (u : Nat)
+    (hu : uidOfBase op = none ∨ uidOfBase op = some u)
+    (hok : isErrOut (step q s op).2 = false) : PRel (step q s (fwdBase u op)) (step q s op) := by
+  have ht : WF (tick s) := hwf
+  cases op with
+  | put b k body o inm im =>
+    simp only [fwdBase]
+    rw [step_put_eq, step_put_eq] at *
+    refine withB_drop b (fun bk hbk hok' => ?_) hok
+    exact unpack_drop (fun _ => rfl) (fun r hr => putRow_drop q (ht bk hbk).1 k _ inm im r hr) hok'
+  | append b k body off =>
+    simp only [fwdBase]
+    rw [step_append_eq, step_append_eq] at *
+    refine withB_drop b (fun bk hbk hok' => ?_) hok
+    rw [appendOn_drop_offset q _ bk k body off hok']
+    exact PRel.refl _
+  | complete b k uid declared inm im =>
+    have huid : u = uid := by rcases hu with h | h <;> simp [uidOfBase] at h; exact h.symm
+    subst huid
+    simp only [fwdBase]
+    rw [step_complete_eq, step_complete_eq] at *
+    refine withB_drop b (fun bk hbk hok' => ?_) hok
+    simp only [declaredErr_partsOnly]
+    cases hfu : bk.uploads.find? (fun x => x.uid == u && x.key == k) with
+    | none => exact PRel.refl _
+    | some up =>
+      rw [hfu] at hok'
+      dsimp only at hok' ⊢
+      by_cases hc : (!contiguousFrom 1 up.parts) = true
+      · simp only [hc, if_true]; exact PRel.refl _
+      · simp only [hc] at hok' ⊢
+        cases hde : declaredErr up declared with
+        | some e => exact PRel.refl _
+        | none =>
+          rw [hde] at hok'
+          dsimp only at hok' ⊢
+          exact unpack_drop (fun _ => rfl)
+            (fun r hr => putRow_drop q (by exact (ht bk hbk).1) k _ inm im r hr) hok'
+  | uploadPart b k uid n body =>
+    have huid : u = uid := by rcases hu with h | h <;> simp [uidOfBase] at h; exact h.symm
+    subst huid; exact PRel.refl _
+  | abort b k uid =>
+    have huid : u = uid := by rcases hu with h | h <;> simp [uidOfBase] at h; exact h.symm
+    subst huid; exact PRel.refl _
+  | mkb b => exact PRel.refl _
+  | rmb b => exact PRel.refl _
+  | setVer b v => exact PRel.refl _
+  | get b k vid => exact PRel.refl _
+  | head b k vid => exact PRel.refl _
+  | del b k vid im => exact PRel.refl _
+  | copy sb sk svid db dk rm rt o => exact PRel.refl _
+  | mpu b k o => exact PRel.refl _
+  | getTags b k vid => exact PRel.refl _
+  | putTags b k vid tags => exact PRel.refl _
+  | delTags b k vid => exact PRel.refl _
+  | transition b k cls vid => exact PRel.refl _
+  | list b => exact PRel.refl _
+  | listVersions b => exact PRel.refl _
+  | listBuckets => exact PRel.refl _
+
+-- ---------------------------------------------------------------- frames
+
+/-! A call that answers with an error leaves the state as it was (only the logical clock ticked). -/
+
+/-- "If the answer is an error, the state is `s`." -/
+def EF (s : State) (x : State × Out) : Prop := isErrOut x.2 = true → x.1 = s
+
+theorem EF.err (s : State) (e : Err) : EF s (s, .err e) := fun _ => rfl
+theorem EF.ite {s : State} {c : Bool} {a b : State × Out} (ha : EF s a) (hb : EF s b) :
+    EF s (if c = true then a else b) := by cases c <;> simpa
+
+theorem EF.withB {s : State} (b : String) {f : Bucket → State × Out} (hf : ∀ bk, EF s (f bk)) : EF s (withB s b f) := by
+  unfold Replication.withB
+  cases findBucket s b with
+  | none => exact EF.err s _
+  | some bk => exact hf bk
+
+theorem EF.unpack {s : State} {f : Option Nat → Out} (hf : ∀ v, isErrOut (f v) = false)
+    (x : Except Err (State × Option Nat)) : EF s (unpack s f x) := by
+  cases x with
+  | error e => exact EF.err s e
+  | ok r => intro h; simp [Replication.unpack, hf] at h
+
+theorem delNone_ef (q : Quirks) (s : State) (bk : Bucket) (k : String) (im : IfMatch) : EF s (delNone q s bk k im) := by
+  unfold delNone
+  refine EF.ite (EF.ite (EF.err s _) ?_) (EF.ite (EF.err s _) (EF.ite ?_ ?_))
+  · intro h; simp [isErrOut] at h
+  · intro h; simp [isErrOut] at h
+  · cases latestRow bk k <;> (intro h; simp [isErrOut] at h)
+
+theorem appendOn_ef (q : Quirks) (s : State) (bk : Bucket) (k : String) (body : Bytes) (off : Option Nat) :
+    EF s (appendOn q s bk k body off) := by
+  unfold appendOn appendBody
+  refine EF.ite (EF.err s _) ?_
+  cases latestRow bk k with
+  | none =>
+    dsimp only
+    cases hq : q.appendLatestInPlace <;>
+      simp only [Bool.false_eq_true, if_false, if_true] <;>
+      repeat' (first
+        | exact EF.err s _
+        | exact EF.unpack (fun _ => rfl) _
+        | (intro h; simp [isErrOut] at h; done)
+        | apply EF.ite)
+  | some a =>
+    cases a with
+    | mk rowId key vid dm latest created updated wrote parts etag ct md tags cls seqBase =>
+    cases dm <;> cases hq : q.appendLatestInPlace <;> cases vid <;>
+      simp only [Bool.false_eq_true, if_false, if_true, Option.isNone_none, Option.isNone_some] <;>
+      repeat' (first
+        | exact EF.err s _
+        | exact EF.unpack (fun _ => rfl) _
+        | (intro h; simp [isErrOut] at h; done)
+        | apply EF.ite)
+
+theorem EF.res {s : State} (f : Row → State × Out) (hf : ∀ r, EF s (f r)) (x : Except Err Row) :
+    EF s (match x with | .error e => (s, Out.err e) | .ok r => f r) := by
+  cases x with
+  | error e => exact EF.err s e
+  | ok r => exact hf r
+
+/-- **A failed call changes nothing but the clock** (calls that name no version id). -/
+theorem step_error_frame (q : Quirks) (s : State) (op : Op) (hv : opNamesVersion op = false) :
+    EF (tick s) (step q s op) := by
+  cases op with
+  | mkb b => rw [step_mkb_eq]; exact EF.ite (EF.err _ _) (fun h => by simp [isErrOut] at h)
+  | rmb b =>
+    rw [step_rmb_eq]
+    exact EF.withB b fun bk => EF.ite (EF.err _ _) (fun h => by simp [isErrOut] at h)
+  | setVer b v => rw [step_setVer_eq]; exact EF.withB b fun bk h => by simp [isErrOut] at h
+  | put b k body o inm im => rw [step_put_eq]; exact EF.withB b fun bk => EF.unpack (fun _ => rfl) _
+  | get b k vid =>
+    rw [step_get_eq]
+    exact EF.withB b fun bk => by cases resolve bk k vid <;> (intro _; rfl)
+  | head b k vid =>
+    rw [step_head_eq]
+    exact EF.withB b fun bk => by cases resolve bk k vid <;> (intro _; rfl)
+  | del b k vid im =>
+    cases vid with
+    | some v => simp [opNamesVersion] at hv
+    | none => rw [step_del_eq]; exact EF.withB b fun bk => by rw [deleteOp_none_eq]; exact delNone_ef q _ bk k im
+  | copy sb sk svid db dk rm rt o =>
+    rw [step_copy_eq]
+    cases findBucket (tick s) sb with
+    | none => exact EF.err _ _
+    | some sbk =>
+      dsimp only
+      cases resolve sbk sk svid with
+      | error e => exact EF.err _ _
+      | ok src => exact EF.withB db fun bk => EF.unpack (fun _ => rfl) _
+  | append b k body off => rw [step_append_eq]; exact EF.withB b fun bk => appendOn_ef q _ bk k body off
+  | mpu b k o => rw [step_mpu_eq]; exact EF.withB b fun bk h => by simp [isErrOut] at h
+  | uploadPart b k uid n body =>
+    rw [step_uploadPart_eq]
+    exact EF.withB b fun bk => by
+      cases bk.uploads.find? (fun u => u.uid == uid && u.key == k) with
+      | none => exact EF.err _ _
+      | some u => intro h; simp [isErrOut] at h
+  | complete b k uid declared inm im =>
+    rw [step_complete_eq]
+    exact EF.withB b fun bk => by
+      cases bk.uploads.find? (fun u => u.uid == uid && u.key == k) with
+      | none => exact EF.err _ _
+      | some u =>
+        dsimp only
+        refine EF.ite (EF.err _ _) ?_
+        cases declaredErr u declared with
+        | some e => exact EF.err _ _
+        | none => exact EF.unpack (fun _ => rfl) _
+  | abort b k uid =>
+    rw [step_abort_eq]
+    exact EF.withB b fun bk => by
+      cases bk.uploads.find? (fun u => u.uid == uid && u.key == k) with
+      | none => exact EF.err _ _
+      | some u => intro h; simp [isErrOut] at h
+  | getTags b k vid =>
+    rw [step_getTags_eq]
+    exact EF.withB b fun bk => by cases resolve bk k vid <;> (intro _; rfl)
+  | putTags b k vid tags =>
+    rw [step_putTags_eq]
+    exact EF.withB b fun bk => EF.res _ (fun r h => by simp [isErrOut] at h) _
+  | delTags b k vid =>
+    rw [step_delTags_eq]
+    exact EF.withB b fun bk => EF.res _ (fun r h => by simp [isErrOut] at h) _
+  | transition b k cls vid =>
+    cases vid with
+    | some v => simp [opNamesVersion] at hv
+    | none =>
+      rw [step_transition_eq]
+      exact EF.withB b fun bk => by
+        dsimp only
+        cases latestRow bk k with
+        | none => exact EF.err _ _
+        | some r => exact EF.ite (EF.err _ _) (fun h => by simp [isErrOut] at h)
+  | list b => rw [step_list_eq]; exact EF.withB b fun bk _ => rfl
+  | listVersions b => rw [step_listVersions_eq]; exact EF.withB b fun bk _ => rfl
+  | listBuckets => intro _; rfl
+
+/-- Reads (the calls replication does not forward) leave the state as it was. -/
+theorem step_read_frame (q : Quirks) (s : State) (op : Op) (hf : forwardedBase op = false) :
+    (step q s op).1 = tick s := by
+  cases op with
+  | get b k vid =>
+    rw [step_get_eq]; unfold withB
+    cases findBucket (tick s) b with
+    | none => rfl
+    | some bk => dsimp only; cases resolve bk k vid <;> rfl
+  | head b k vid =>
+    rw [step_head_eq]; unfold withB
+    cases findBucket (tick s) b with
+    | none => rfl
+    | some bk => dsimp only; cases resolve bk k vid <;> rfl
+  | getTags b k vid =>
+    rw [step_getTags_eq]; unfold withB
+    cases findBucket (tick s) b with
+    | none => rfl
+    | some bk => dsimp only; cases resolve bk k vid <;> rfl
+  | list b => rw [step_list_eq]; unfold withB; cases findBucket (tick s) b <;> rfl
+  | listVersions b => rw [step_listVersions_eq]; unfold withB; cases findBucket (tick s) b <;> rfl
+  | listBuckets => rfl
+  | mkb b => simp [forwardedBase] at hf
+  | rmb b => simp [forwardedBase] at hf
+  | setVer b v => simp [forwardedBase] at hf
+  | put b k body o inm im => simp [forwardedBase] at hf
+  | del b k vid im => simp [forwardedBase] at hf
+  | copy sb sk svid db dk rm rt o => simp [forwardedBase] at hf
+  | append b k body off => simp [forwardedBase] at hf
+  | mpu b k o => simp [forwardedBase] at hf
+  | uploadPart b k uid n body => simp [forwardedBase] at hf
+  | complete b k uid declared inm im => simp [forwardedBase] at hf
+  | abort b k uid => simp [forwardedBase] at hf
+  | putTags b k vid tags => simp [forwardedBase] at hf
+  | delTags b k vid => simp [forwardedBase] at hf
+  | transition b k cls vid => simp [forwardedBase] at hf
+
+-- ---------------------------------------------------------------- forwarding to all secondaries
+
+theorem isErr_base (o : Out) : (XOut.base o).isErr = isErrOut o := by cases o <;> rfl
+
+theorem isErr_erase (x : XOut) : (eraseXOut x).isErr = x.isErr := by
+  cases x with
+  | base o => cases o <;> rfl
+  | many l => rfl
+
+theorem uploadUid_erase (x : XOut) : uploadUid (eraseXOut x) = uploadUid x := by
+  cases x with
+  | base o => cases o <;> rfl
+  | many l => rfl
+
+theorem XRel.refl (x : State × XOut) : XRel x x := ⟨rfl, rfl⟩
+theorem XRel.trans {x y z : State × XOut} (h : XRel x y) (h' : XRel y z) : XRel x z :=
+  ⟨h.1.trans h'.1, h.2.trans h'.2⟩
+theorem XRel.symm {x y : State × XOut} (h : XRel x y) : XRel y x := ⟨h.1.symm, h.2.symm⟩
+
+/-- A failed call changes nothing but the clock; a call replication does not forward neither. -/
+theorem xstep_error_frame (q : Quirks) (s : State) (op : XOp) (hv : op.namesVersion = false)
+    (he : (xstep q s op).2.isErr = true) : Equiv (xstep q s op).1 s := by
+  cases op with
+  | base op =>
+    have := step_error_frame q s op hv (by simpa [xstep, isErr_base] using he)
+    simp only [xstep]; rw [this]; exact equiv_tick s
+  | partCopy sb sk svid db dk uid n range =>
+    simp only [xstep] at he ⊢
+    generalize readSource s sb sk svid = x at he ⊢
+    cases x with
+    | error e => exact equiv_tick s
+    | ok r =>
+      dsimp only at he ⊢
+      generalize sliceOf r.content range = y at he ⊢
+      cases y with
+      | error e => exact equiv_tick s
+      | ok body =>
+        dsimp only at he ⊢
+        have := step_error_frame q s (.uploadPart db dk uid n body) rfl (by simpa [isErr_base] using he)
+        rw [this]; exact equiv_tick s
+  | delMany b keys =>
+    simp only [xstep] at he ⊢
+    generalize findBucket s b = x at he ⊢
+    cases x with
+    | none => exact equiv_tick s
+    | some bk => simp [XOut.isErr] at he
+
+theorem xstep_read_frame (q : Quirks) (s : State) (op : XOp) (hf : forwarded op = false) :
+    Equiv (xstep q s op).1 s := by
+  cases op with
+  | base op => simp only [xstep]; rw [step_read_frame q s op hf]; exact equiv_tick s
+  | partCopy sb sk svid db dk uid n range => simp [forwarded] at hf
+  | delMany b keys => simp [forwarded] at hf
+
+theorem namesVersion_fwd (u : Nat) (op : XOp) : (fwd u op).namesVersion = op.namesVersion := by
+  cases op with
+  | base op => cases op <;> rfl
+  | partCopy sb sk svid db dk uid n range => rfl
+  | delMany b keys => rfl
+
+theorem fwd_same_effect (q : Quirks) {s : State} (hwf : WF s) (op : XOp) (u : Nat)
+    (hu : uidOf op = none ∨ uidOf op = some u) (hok : (xstep q s op).2.isErr = false) :
+    XRel (xstep q s (fwd u op)) (xstep q s op) := by
+  cases op with
+  | base op =>
+    exact XRel.of_prel (fwdBase_same_effect q hwf op u hu (by simpa [xstep, isErr_base] using hok))
+  | partCopy sb sk svid db dk uid n range =>
+    have huid : u = uid := by rcases hu with h | h <;> simp [uidOf] at h; exact h.symm
+    subst huid; exact XRel.refl _
+  | delMany b keys => exact XRel.refl _
+
+/-- **One secondary, one forwarded call.** The primary `p` (row ids unique) and a secondary `t`
+agree up to timestamps; `op` names no version id and succeeded on the primary. Then the call
+replication forwards — conditions and offset dropped, the secondary's own upload id (which in the
+model is the primary's: ids are creation ordinals) — takes the secondary to a state that agrees
+with the primary's new state, with the same answer. -/
+theorem forward_one (q : Quirks) {p t : State} (hwf : WF p) (h : Equiv p t) (op : XOp) (u : Nat)
+    (hv : op.namesVersion = false) (hu : uidOf op = none ∨ uidOf op = some u)
+    (hok : (xstep q p op).2.isErr = false) : XRel (xstep q t (fwd u op)) (xstep q p op) :=
+  (xstep_respects_equiv q h.symm (fwd u op) (by rw [namesVersion_fwd]; exact hv)).trans
+    (fwd_same_effect q hwf op u hu hok)
+
+theorem forwardAll_spec (q : Quirks) {p : State} (hwf : WF p) (op : XOp) (u : Nat)
+    (hv : op.namesVersion = false) (hu : uidOf op = none ∨ uidOf op = some u)
+    (hok : (xstep q p op).2.isErr = false) (needUid : Bool) :
+    ∀ (secs : List State) (us : List Nat),
+      (∀ t ∈ secs, Equiv p t) →
+      (∀ i, i < secs.length → (us.drop i).headD 0 = u) →
+      (needUid = true → secs.length ≤ us.length) →
+      (forwardAll q op needUid secs us).2.2 = false ∧
+      (forwardAll q op needUid secs us).1.length = secs.length ∧
+      (forwardAll q op needUid secs us).2.1.length = secs.length ∧
+      (∀ t' ∈ (forwardAll q op needUid secs us).1, Equiv (xstep q p op).1 t') ∧
+      (∀ o ∈ (forwardAll q op needUid secs us).2.1, eraseXOut o = eraseXOut (xstep q p op).2)
+  | [], us, _, _, _ => by simp [forwardAll]
+  | t :: rest, us, hsecs, hus, hlen => by
+    have hne : (needUid && us.isEmpty) = false := by
+      cases needUid with
+      | false => rfl
+      | true =>
+        have := hlen rfl
+        cases us with
+        | nil => simp at this
+        | cons a l => rfl
+    have hhead : us.headD 0 = u := by simpa using hus 0 (by simp)
+    have h1 := forward_one q hwf (hsecs t (List.mem_cons_self ..)) op u hv hu hok
+    have herr : (xstep q t (fwd u op)).2.isErr = false := by
+      rw [← isErr_erase, h1.2, isErr_erase]; exact hok
+    have ih := forwardAll_spec q hwf op u hv hu hok needUid rest us.tail
+      (fun t' ht' => hsecs t' (List.mem_cons_of_mem _ ht'))
+      (fun i hi => by
+        have := hus (i + 1) (by simp; omega)
+        rw [← this]; cases us <;> simp)
+      (fun hn => by have := hlen hn; cases us <;> simp at this ⊢; omega)
+    simp only [forwardAll, hne, Bool.false_eq_true, if_false, hhead, herr]
+    obtain ⟨i1, i2, i3, i4, i5⟩ := ih
+    refine ⟨i1, by simp [i2], by simp [i3], ?_, ?_⟩
+    · intro t' ht'
+      rcases List.mem_cons.mp ht' with rfl | ht'
+      · exact h1.1.symm
+      · exact i4 t' ht'
+    · intro o ho
+      rcases List.mem_cons.mp ho with rfl | ho
+      · exact h1.2
+      · exact i5 o ho
+
+-- ---------------------------------------------------------------- the replication storage
+
+/-- The invariant of the replication storage's state. -/
+structure Inv (rs : RState) : Prop where
+  wf : WF rs.primary
+  conv : Converged rs
+  ids : ∀ u l, (u, l) ∈ rs.umap → l = List.replicate rs.secs.length u
+
+theorem rstep_skip (q : Quirks) (rs : RState) (op : XOp)
+    (hc : ((xstep q rs.primary op).2.isErr || !forwarded op) = true) :
+    rstep q rs op = ({ rs with primary := (xstep q rs.primary op).1 },
+                     { out := (xstep q rs.primary op).2, primary := (xstep q rs.primary op).2 }) := by
+  unfold rstep
+  simp only [hc, if_true]
+
+/-- The upload ids handed to `forwardAll`. -/
+def usOf (rs : RState) (op : XOp) : List Nat :=
+  match uidOf op with
+  | none => []
+  | some u => (rs.umap.lookup u).getD []
+
+theorem rstep_forward (q : Quirks) (rs : RState) (op : XOp)
+    (hc : ((xstep q rs.primary op).2.isErr || !forwarded op) = false) :
+    let po := (xstep q rs.primary op).2
+    let fw := forwardAll q op (uidOf op).isSome rs.secs (usOf rs op)
+    let failed := fw.2.1.find? (·.isErr)
+    let done := failed.isNone && !fw.2.2
+    rstep q rs op =
+      ({ primary := (xstep q rs.primary op).1, secs := fw.1,
+         umap := if !done then rs.umap
+                 else if isMpu op then
+                   match uploadUid po with
+                   | some pu => (pu, fw.2.1.filterMap uploadUid) :: rs.umap.filter (·.1 != pu)
+                   | none => rs.umap
+                 else if endsUpload op then
+                   match uidOf op with
+                   | some u => rs.umap.filter (·.1 != u)
+                   | none => rs.umap
+                 else rs.umap },
+       { out := failed.getD po, primary := po, secs := fw.2.1, mapMiss := fw.2.2 }) := by
+  intro po fw failed done
+  unfold rstep
+  simp only [hc, Bool.false_eq_true, if_false]
+  rfl
+
+
+theorem lookup_mem {α : Type} (u : Nat) (l : List (Nat × α)) (v : α) (h : l.lookup u = some v) : (u, v) ∈ l := by
+  induction l with
+  | nil => simp at h
+  | cons x xs ih =>
+    obtain ⟨a, b⟩ := x
+    simp only [List.lookup_cons] at h
+    by_cases hua : u == a
+    · simp only [hua] at h
+      have : u = a := by simpa using hua
+      cases h; subst this
+      exact List.mem_cons_self ..
+    · simp only [hua] at h
+      exact List.mem_cons_of_mem _ (ih h)
+
+theorem drop_replicate_headD (n i u : Nat) (hi : i < n) : ((List.replicate n u).drop i).headD 0 = u := by
+  rw [List.drop_replicate]
+  have : n - i = (n - i - 1) + 1 := by omega
+  rw [this, List.replicate_succ]; rfl
+
+theorem find_isErr_none (outs : List XOut) (x : XOut) (hx : x.isErr = false)
+    (h : ∀ o ∈ outs, eraseXOut o = eraseXOut x) : outs.find? (·.isErr) = none := by
+  apply List.find?_eq_none.mpr
+  intro o ho
+  have : o.isErr = false := by rw [← isErr_erase, h o ho, isErr_erase]; exact hx
+  simp [this]
+
+theorem filterMap_uploadUid (outs : List XOut) (x : XOut) (pu : Nat) (hx : uploadUid x = some pu)
+    (h : ∀ o ∈ outs, eraseXOut o = eraseXOut x) : outs.filterMap uploadUid = List.replicate outs.length pu := by
+  induction outs with
+  | nil => rfl
+  | cons o os ih =>
+    have ho : uploadUid o = some pu := by
+      rw [← uploadUid_erase, h o (List.mem_cons_self ..), uploadUid_erase]; exact hx
+    simp [ho, List.replicate_succ, ih (fun o' ho' => h o' (List.mem_cons_of_mem _ ho'))]
+
+/-- `rstep` keeps the invariant, for every call that names no version id, unless the id map
+lookup misses (which the answer reports). -/
+theorem rstep_inv (q : Quirks) {rs : RState} (hi : Inv rs) (op : XOp) (hv : op.namesVersion = false)
+    (hm : (rstep q rs op).2.mapMiss = false) : Inv (rstep q rs op).1 := by
+  obtain ⟨hwf, hconv, hids⟩ := hi
+  by_cases hc : ((xstep q rs.primary op).2.isErr || !forwarded op) = true
+  · rw [rstep_skip q rs op hc]
+    refine ⟨xstep_wf q hwf op hv, ?_, hids⟩
+    intro t ht
+    have hp : Equiv (xstep q rs.primary op).1 rs.primary := by
+      rcases Bool.or_eq_true _ _ |>.mp hc with he | hf
+      · exact xstep_error_frame q _ op hv he
+      · exact xstep_read_frame q _ op (by simpa using hf)
+    exact hp.trans (hconv t ht)
+  · have hc' : ((xstep q rs.primary op).2.isErr || !forwarded op) = false := by simpa using hc
+    have hok : (xstep q rs.primary op).2.isErr = false := by
+      cases h : (xstep q rs.primary op).2.isErr <;> simp [h] at hc' ⊢
+    have hrs := rstep_forward q rs op hc'
+    dsimp only at hrs
+    rw [hrs] at hm ⊢
+    dsimp only at hm ⊢
+    -- the upload id the call carries, and what the lookup gave
+    have key : ∃ u, (uidOf op = none ∨ uidOf op = some u) ∧
+        (∀ i, i < rs.secs.length → ((usOf rs op).drop i).headD 0 = u) ∧
+        ((uidOf op).isSome = true → rs.secs.length ≤ (usOf rs op).length) := by
+      cases hu : uidOf op with
+      | none => exact ⟨0, Or.inl rfl, by simp [usOf, hu], by simp⟩
+      | some u =>
+        refine ⟨u, Or.inr rfl, ?_⟩
+        cases hl : rs.umap.lookup u with
+        | some l =>
+          have hl' := hids u l (lookup_mem u _ l hl)
+          subst hl'
+          simp only [usOf, hu, hl, Option.getD_some, List.length_replicate, Nat.le_refl, implies_true, and_true]
+          intro i hi
+          exact drop_replicate_headD _ _ _ hi
+        | none =>
+          -- nil slice: with at least one secondary the Go code panics, which `mapMiss` reports
+          cases hs : rs.secs with
+          | nil => simp [usOf, hu, hl]
+          | cons t rest =>
+            exfalso
+            simp [usOf, hu, hl, hs, forwardAll] at hm
+    obtain ⟨u, hu, hus, hlen⟩ := key
+    obtain ⟨s1, s2, s3, s4, s5⟩ :=
+      forwardAll_spec q hwf op u hv hu hok (uidOf op).isSome rs.secs (usOf rs op) hconv hus hlen
+    have hfail := find_isErr_none _ _ hok s5
+    refine ⟨xstep_wf q hwf op hv, s4, ?_⟩
+    simp only [hfail, s1, Option.isNone_none, Bool.not_false, Bool.and_self, Bool.not_true, Bool.false_eq_true,
+      if_false, s2]
+    split
+    · split
+      · rename_i pu hpu
+        intro u' l' hmem
+        rcases List.mem_cons.mp hmem with h | h
+        · cases h
+          rw [filterMap_uploadUid _ _ pu hpu s5, s3]
+        · exact hids u' l' (List.mem_filter.mp h).1
+      · exact hids
+    · split
+      · split
+        · intro u' l' hmem; exact hids u' l' (List.mem_filter.mp hmem).1
+        · exact hids
+      · exact hids
+
+
+theorem inv_init (n : Nat) : Inv (init n) := by
+  refine ⟨?_, ?_, ?_⟩
+  · intro bk hbk; simp [init] at hbk
+  · intro t ht
+    simp only [init, List.mem_replicate] at ht
+    rw [ht.2]; rfl
+  · intro u l h; simp [init] at h
+
+theorem rrun_inv (q : Quirks) (ops : List XOp) {rs : RState} (hi : Inv rs)
+    (hv : ∀ op ∈ ops, op.namesVersion = false)
+    (hm : ∀ o ∈ (rrun q rs ops).2, o.mapMiss = false) : Inv (rrun q rs ops).1 := by
+  induction ops generalizing rs with
+  | nil => exact hi
+  | cons op ops ih =>
+    simp only [rrun] at hm ⊢
+    have h1 := rstep_inv q hi op (hv op (List.mem_cons_self ..)) (hm _ (List.mem_cons_self ..))
+    exact ih h1 (fun o ho => hv o (List.mem_cons_of_mem _ ho)) (fun o ho => hm o (List.mem_cons_of_mem _ ho))
+
+-- ---------------------------------------------------------------- what `≈` means for a reader
+
+theorem eraseRow_idem (r : Row) : eraseRow (eraseRow r) = eraseRow r := rfl
+
+theorem currentObjects_congr {bk bk' : Bucket} (h : BEqv bk bk') : currentObjects bk = currentObjects bk' := by
+  unfold currentObjects
+  have hf := filter_congr eraseRow (fun r => r.latest && !r.dm)
+    (fun a c hac => by obtain ⟨_, _, _, f4, f5, _⟩ := REqv.fields hac; simp [f4, f5]) _ _ h.fields.2.2.1
+  have hs := sortBy_congr eraseRow (fun a b : Row => decide (a.key < b.key))
+    (fun a c d e h1 h2 => by simp [(REqv.fields h1).2.1, (REqv.fields h2).2.1]) _ _ hf
+  exact map_through eraseRow obsOfRow (fun a => by cases a; rfl) hs
+
+/-- Replicas that agree up to timestamps show a reader the same buckets, keys, contents, content
+types, metadata, tags (and storage classes). -/
+theorem observe_congr {s t : State} (h : Equiv s t) : observe s = observe t := by
+  unfold observe
+  have hs := sortBy_congr eraseBucket (fun a b : Bucket => decide (a.name < b.name))
+    (fun a c d e h1 h2 => by simp [(BEqv.fields h1).1, (BEqv.fields h2).1]) _ _ h.fields.1
+  generalize sortBy (fun a b : Bucket => decide (a.name < b.name)) s.buckets = l at hs
+  generalize sortBy (fun a b : Bucket => decide (a.name < b.name)) t.buckets = l' at hs
+  induction l generalizing l' with
+  | nil => cases l' <;> simp at hs ⊢
+  | cons a l ih =>
+    cases l' with
+    | nil => simp at hs
+    | cons b l' =>
+      simp only [List.map_cons, List.cons.injEq] at hs
+      simp only [List.map_cons, ih l' hs.2, (BEqv.fields hs.1).1, currentObjects_congr hs.1]
 
 end Pithos.Replication
 
